@@ -1,7 +1,28 @@
 /-
   Refinement: the generated IR of utils.DecomposeNAF, utils.getBit and utils.getBits
   (SMGo/Gen/CTIRProgFn.lean, `fn_0`, `fn_1`, `fn_2`) computes the hand-written models
-  `Model.Utils.decomposeNAF`, `getBit`, `getBits` (SMGo/Model/Utils.lean).
+  `Model.Utils.decomposeNAF`, `getBit`, `getBits` (SMGo/Model/Utils.lean), in the style of
+  SMGo/Proofs/CTIRRefineUtils.lean.
+
+  Encodings: `[]byte` ↦ `bytesV`, `[]int` ↦ `intsV`, `bool` ↦ `boolV` (0 / 1), `int` ↦ `.int`.
+  A model `ok` is a returning run for every fuel ≥ an explicit bound; a model `panic` from an index out of range
+  is a run that is stuck with EVERY fuel; the explicit `panic("nil or invalid parameters")` is `Ctl.panic`.
+
+  Domains (stated in the theorems, nothing else is assumed):
+  * getBit:  `0 ≤ idx < 2^63` (the model takes `idx : Nat`; DecomposeNAF only passes `bitIdx-1 ≥ 0`).
+  * getBits: `0 ≤ idx < 2^63`, `0 ≤ w ≤ 61`.  (For `62 ≤ w ≤ 2^63-2` Go, the IR and the model still agree —
+    `1<<(w+1) - 1` wraps to `2^63-1` resp. `-1`, which mask a byte like `2^(w+1)-1` — not proved here;
+    for `w = math.MaxInt64` they DISAGREE: `w+1` wraps to a negative shift count, Go panics / the IR is
+    stuck, the model with `w : Nat` returns a value.  The `uint8` mask `1<<bitsHi - 1` with `bitsHi ≥ 8`
+    (wraps to 255) is inside the proved domain: `maskHi2`.)
+  * DecomposeNAF: any `out`, `s`, any `w`; `math.MinInt64 < n < 2^63` and (`n ≤ math.MaxInt64 - 6` or
+    `len(s) < 2^60`).  No hypothesis on the elements of `out` (they are never read).
+    - `n = math.MinInt64` is a DISAGREEMENT (theorem `naf_minInt64_disagree`): Go and the IR wrap `n-1` to
+      `math.MaxInt64`, enter the loop and panic in the first `getBit`; the model runs `n.toNat = 0` rounds
+      and returns `out` unchanged.
+    - `n > math.MaxInt64 - 6` and `len(s) ≥ 2^60` (not a Go slice): `outIdx += w; outIdx++` may wrap in Go and
+      the IR, not in the model; not examined further.
+    - `n ≤ 0` (other than MinInt64): both sides return `out` unchanged.
 -/
 import SMGo.Proofs.CTIRRefineUtils
 import SMGo.Gen.CTIRProgFn
@@ -120,7 +141,7 @@ theorem getBit_unfold (s : Bytes) (idx : Nat) (carry : Bool) :
         else Outcome.ok (0, true)) := rfl
 
 /-- the fuel of a call of getBit / getBits -/
-def fuelBit : Nat := 16
+def fuelBit : Nat := 20
 
 /-- getBit, body level: the model returns `(bit, c')` ⇒ the body returns `[bit, c']` -/
 theorem getBit_body_ok (s : Bytes) (idx : Nat) (carry : Bool) (hidx : idx < 9223372036854775808)
@@ -283,26 +304,47 @@ theorem or_i64_nat {a b : Nat} (ha : a < 9223372036854775808) (hb : b < 92233720
     pat_i64_nat (show b < 18446744073709551616 by omega)]
   rw [norm_i64_nat (by omega)]
 
+theorem norm_i64_pred {p : Nat} (h0 : 0 < p) (hp : p < 9223372036854775808) :
+    norm .i64 ((p : Int) - 1) = ((p - 1 : Nat) : Int) := by
+  rw [norm_i64_small (by omega) (by omega)]; omega
+
 theorem two_pow_mod256 {k : Nat} (hk : 8 ≤ k) : 2 ^ k % 256 = 0 := by
   obtain ⟨j, rfl⟩ := Nat.exists_eq_add_of_le hk
   rw [Nat.pow_add]
   exact Nat.mul_mod_right 256 _
 
+theorem add_i64_nat {a b : Nat} (h : a + b < 9223372036854775808) :
+    evalOp2 (.add .i64) (a : Int) (b : Int) = some ((a + b : Nat) : Int) := by
+  simp only [evalOp2]
+  rw [norm_i64_small (by omega) (by omega)]; rfl
+
+theorem sub_i64_nat {a b : Nat} (hb : b ≤ a) (ha : a < 9223372036854775808) :
+    evalOp2 (.sub .i64) (a : Int) (b : Int) = some ((a - b : Nat) : Int) := by
+  simp only [evalOp2]
+  rw [norm_i64_small (by omega) (by omega)]
+  congr 1; omega
+
+theorem shl_u8_one (k : Nat) : evalOp2 (.shl .u8) 1 (k : Int) = some (((2 ^ k % 256 : Nat)) : Int) := by
+  have hk : ¬ ((k : Int) < 0) := by omega
+  simp only [evalOp2, hk, if_false, Int.toNat_natCast, norm, Int.one_mul]
+  rfl
+
 /-- the `uint8` mask `1<<k - 1` (for k ≥ 8 it is 255) acts on a byte as the unbounded `2^k - 1` -/
-theorem maskHi (bh k : Nat) (hbh : bh < 256) :
-    ∃ m : Nat, m < 256 ∧ norm .u8 (norm .u8 (1 * ((2 ^ k : Nat) : Int)) - 1) = (m : Int) ∧
+theorem maskHi2 (bh k : Nat) (hbh : bh < 256) :
+    ∃ m : Nat, m < 256 ∧ evalOp2 (.sub .u8) ((2 ^ k % 256 : Nat) : Int) 1 = some (m : Int) ∧
       bh &&& m = bh &&& (2 ^ k - 1) := by
   by_cases hk : k < 8
   · have h1 : 2 ^ k < 256 := Nat.pow_lt_pow_right (by omega) hk
     have h0 : 0 < 2 ^ k := Nat.two_pow_pos k
     refine ⟨2 ^ k - 1, by omega, ?_, rfl⟩
-    simp only [norm]
-    omega
+    rw [Nat.mod_eq_of_lt h1]
+    generalize 2 ^ k = p at *
+    simp only [evalOp2, norm]
+    congr 1; omega
   · have h0 : 2 ^ k % 256 = 0 := two_pow_mod256 (by omega)
     have h2 : 256 ≤ 2 ^ k := Nat.le_of_dvd (Nat.two_pow_pos k) (Nat.dvd_of_mod_eq_zero h0)
     refine ⟨255, by omega, ?_, ?_⟩
-    · simp only [norm]
-      omega
+    · rw [h0]; rfl
     · have e1 : bh &&& 255 = bh % 256 := Nat.and_two_pow_sub_one_eq_mod bh 8
       rw [e1, Nat.and_two_pow_sub_one_eq_mod, Nat.mod_eq_of_lt hbh, Nat.mod_eq_of_lt (by omega)]
 
@@ -355,16 +397,1364 @@ theorem bits_prologue (s : Bytes) (idx w : Nat) (hidx : idx < 922337203685477580
       rw [norm_i64_small (by omega) (by omega)]; rfl
     have hp := two_pow_lt63 (show w + 1 ≤ 62 by omega)
     have h0 : 0 < 2 ^ (w + 1) := Nat.two_pow_pos _
-    simp only [evalV_op2, evalV_var, evalV_lit, g2, ha, Option.map_some, shl_i64_one (show w + 1 ≤ 62 by omega)]
-    simp only [evalOp2, Option.map_some]
-    rw [norm_i64_small (by omega) (by omega)]
-    congr 2; omega
+    have t1 : evalV G e2 (.op2 (.add .i64) (.var 2) (.lit 1)) = some (.int ((w + 1 : Nat) : Int)) := by
+      simp only [evalV_op2, evalV_var, evalV_lit, g2, ha, Option.map_some]
+    have t2 : evalV G e2 (.op2 (.shl .i64) (.lit 1) (.op2 (.add .i64) (.var 2) (.lit 1)))
+        = some (.int ((2 ^ (w + 1) : Nat) : Int)) := by
+      rw [evalV_op2, t1, evalV_lit]
+      simp only [shl_i64_one (show w + 1 ≤ 62 by omega), Option.map_some]
+    rw [evalV_op2, t2, evalV_lit]
+    simp only [evalOp2, Option.map_some, norm_i64_pred h0 hp]
   constructor
   · intro F env' c hr
     exact (EvIn.seq (EvIn.assign s1) (EvIn.seq (EvIn.assign s2) (EvIn.seq (EvIn.assign s3) hr))).mono (by omega)
   · intro hr
     exact Stuck.seq_right (EvIn.assign s1) (Stuck.seq_right (EvIn.assign s2) (Stuck.seq_right (EvIn.assign s3) hr))
 
+/-- the statements of getBits after the first three assignments -/
+def bitsRest : Stmt :=
+  seqs [.assign 7 [] (.op2 (.and .i64) (.op1 (.conv .i64) (.op2 .shr (.idx (.var 0) (.var 4)) (.var 5))) (.var 6)),
+      .ite (.op2 .land (.op2 .gt (.op2 (.add .i64) (.op2 (.add .i64) (.var 5) (.var 2)) (.lit 1)) (.lit 7)) (.op2 .gt (.var 4) (.lit 0)))
+        (seqs [.assign 8 [] (.op2 (.sub .i64) (.op2 (.add .i64) (.op2 (.add .i64) (.var 5) (.var 2)) (.lit 1)) (.lit 8)),
+          .assign 9 [] (.op1 (.conv .i64) (.op2 (.and .u8) (.idx (.var 0) (.op2 (.sub .i64) (.var 4) (.lit 1))) (.op2 (.sub .u8) (.op2 (.shl .u8) (.lit 1) (.var 8)) (.lit 1)))),
+          .assign 7 [] (.op2 (.or .i64) (.var 7) (.op2 (.shl .i64) (.var 9) (.op2 (.sub .i64) (.op2 (.add .i64) (.var 2) (.lit 1)) (.var 8))))]) .skip,
+      .ret [(.var 7)],
+      .panic]
+
+/-- `s[byteIdx] >> bitIdx & mask` -/
+theorem bits_lo {env : Env} {s : Bytes} {B K M : Nat} {b : UInt8}
+    (g0 : env 0 = bytesV s) (g4 : env 4 = .int (B : Int)) (g5 : env 5 = .int (K : Int)) (g6 : env 6 = .int (M : Int))
+    (hM : M < 9223372036854775808) (hb : s[B]? = some b) :
+    evalV G env (.op2 (.and .i64) (.op1 (.conv .i64) (.op2 .shr (.idx (.var 0) (.var 4)) (.var 5))) (.var 6))
+      = some (.int (((b.toNat >>> K) &&& M : Nat) : Int)) := by
+  have hbyte := b.toNat_lt
+  have hsh : b.toNat >>> K < 256 := Nat.lt_of_le_of_lt (Nat.shiftRight_le _ _) (by omega)
+  have t1 : evalV G env (.idx (.var 0) (.var 4)) = some (.int (b.toNat : Int)) := by
+    simp only [evalV_idx, evalV_var, g0, g4, bytesV, getIdx_ofNat, List.getElem?_map, hb, Option.map_some,
+      Int.ofNat_eq_natCast]
+  have t2 : evalV G env (.op2 .shr (.idx (.var 0) (.var 4)) (.var 5)) = some (.int ((b.toNat >>> K : Nat) : Int)) := by
+    rw [evalV_op2, t1, evalV_var, g5]
+    simp only [shr_nat, Option.map_some]
+  have t3 : evalV G env (.op1 (.conv .i64) (.op2 .shr (.idx (.var 0) (.var 4)) (.var 5)))
+      = some (.int ((b.toNat >>> K : Nat) : Int)) := by
+    rw [evalV_op1, t2]
+    simp only [evalOp1]
+    rw [norm_i64_nat (by omega)]
+  rw [evalV_op2, t3, evalV_var, g6]
+  simp only [and_i64_nat (show b.toNat >>> K < 9223372036854775808 by omega) (show M < 18446744073709551616 by omega),
+    Option.map_some]
+
+/-- `bitIdx + w + 1` -/
+theorem bits_sum {env : Env} {K w : Nat} (g5 : env 5 = .int (K : Int)) (g2 : env 2 = .int (w : Int))
+    (h : K + w + 1 < 9223372036854775808) :
+    evalV G env (.op2 (.add .i64) (.op2 (.add .i64) (.var 5) (.var 2)) (.lit 1)) = some (.int ((K + w + 1 : Nat) : Int)) := by
+  have t1 : evalV G env (.op2 (.add .i64) (.var 5) (.var 2)) = some (.int ((K + w : Nat) : Int)) := by
+    rw [evalV_op2, evalV_var, evalV_var, g5, g2]
+    simp only [add_i64_nat (show K + w < 9223372036854775808 by omega), Option.map_some]
+  have h1 : evalOp2 (.add .i64) ((K + w : Nat) : Int) 1 = some ((K + w + 1 : Nat) : Int) :=
+    add_i64_nat (b := 1) h
+  rw [evalV_op2, t1, evalV_lit]
+  simp only [h1, Option.map_some]
+
+/-- `bitIdx + w + 1 > 7 && byteIdx > 0` -/
+theorem bits_cond {env : Env} {B K w : Nat} (g4 : env 4 = .int (B : Int)) (g5 : env 5 = .int (K : Int))
+    (g2 : env 2 = .int (w : Int)) (h : K + w + 1 < 9223372036854775808) :
+    evalV G env (.op2 .land (.op2 .gt (.op2 (.add .i64) (.op2 (.add .i64) (.var 5) (.var 2)) (.lit 1)) (.lit 7)) (.op2 .gt (.var 4) (.lit 0)))
+      = some (.int (if K + w + 1 > 7 ∧ B > 0 then 1 else 0)) := by
+  have t1 : evalV G env (.op2 .gt (.op2 (.add .i64) (.op2 (.add .i64) (.var 5) (.var 2)) (.lit 1)) (.lit 7))
+      = some (.int (if K + w + 1 > 7 then 1 else 0)) := by
+    rw [evalV_op2, bits_sum g5 g2 h, evalV_lit]
+    simp only [evalOp2, Option.map_some, ofBool]
+    by_cases h7 : K + w + 1 > 7
+    · simp [h7]; omega
+    · simp [h7]; omega
+  have t2 : evalV G env (.op2 .gt (.var 4) (.lit 0)) = some (.int (if B > 0 then 1 else 0)) := by
+    rw [evalV_op2, evalV_var, g4, evalV_lit]
+    simp only [evalOp2, Option.map_some, ofBool]
+    by_cases h0 : B > 0
+    · simp [h0]
+    · simp [h0]
+  rw [evalV_op2, t1, t2]
+  simp only [evalOp2, Option.map_some, ofBool]
+  by_cases h7 : K + w + 1 > 7 <;> by_cases h0 : B > 0 <;> simp [h7, h0]
+
+
+/-- `int(s[byteIdx-1] & (1<<bitsHi - 1))` -/
+theorem bits_hi {env : Env} {s : Bytes} {B H : Nat} {bh : UInt8}
+    (g0 : env 0 = bytesV s) (g4 : env 4 = .int (B : Int)) (g8 : env 8 = .int (H : Int))
+    (hB : 0 < B) (hB2 : B < 9223372036854775808) (hb : s[B - 1]? = some bh) :
+    evalV G env (.op1 (.conv .i64) (.op2 (.and .u8) (.idx (.var 0) (.op2 (.sub .i64) (.var 4) (.lit 1)))
+        (.op2 (.sub .u8) (.op2 (.shl .u8) (.lit 1) (.var 8)) (.lit 1))))
+      = some (.int ((bh.toNat &&& (2 ^ H - 1) : Nat) : Int)) := by
+  have hbyte : bh.toNat < 256 := by have := bh.toNat_lt; omega
+  obtain ⟨m, hm, hsub, hand⟩ := maskHi2 bh.toNat H hbyte
+  have i1 : evalV G env (.op2 (.sub .i64) (.var 4) (.lit 1)) = some (.int ((B - 1 : Nat) : Int)) := by
+    have h1 : evalOp2 (.sub .i64) (B : Int) 1 = some ((B - 1 : Nat) : Int) := sub_i64_nat (b := 1) hB hB2
+    rw [evalV_op2, evalV_var, g4, evalV_lit]
+    simp only [h1, Option.map_some]
+  have i2 : evalV G env (.idx (.var 0) (.op2 (.sub .i64) (.var 4) (.lit 1))) = some (.int (bh.toNat : Int)) := by
+    rw [evalV_idx, i1, evalV_var, g0]
+    simp only [bytesV, getIdx_ofNat, List.getElem?_map, hb, Option.map_some, Int.ofNat_eq_natCast]
+  have m1 : evalV G env (.op2 (.shl .u8) (.lit 1) (.var 8)) = some (.int ((2 ^ H % 256 : Nat) : Int)) := by
+    rw [evalV_op2, evalV_lit, evalV_var, g8]
+    simp only [shl_u8_one, Option.map_some]
+  have m2 : evalV G env (.op2 (.sub .u8) (.op2 (.shl .u8) (.lit 1) (.var 8)) (.lit 1)) = some (.int (m : Int)) := by
+    rw [evalV_op2, m1, evalV_lit]
+    simp only [hsub, Option.map_some]
+  have a1 : evalV G env (.op2 (.and .u8) (.idx (.var 0) (.op2 (.sub .i64) (.var 4) (.lit 1)))
+        (.op2 (.sub .u8) (.op2 (.shl .u8) (.lit 1) (.var 8)) (.lit 1))) = some (.int ((bh.toNat &&& m : Nat) : Int)) := by
+    rw [evalV_op2, i2, m2]
+    simp only [and_u8_nat hbyte hm, Option.map_some]
+  have hle : bh.toNat &&& m ≤ bh.toNat := Nat.and_le_left
+  rw [evalV_op1, a1]
+  simp only [evalOp1]
+  rw [norm_i64_nat (by omega), hand]
+
+/-- `byteLo | byteHi << (w + 1 - bitsHi)` -/
+theorem bits_or {env : Env} {lo hi w H : Nat}
+    (g7 : env 7 = .int (lo : Int)) (g9 : env 9 = .int (hi : Int)) (g2 : env 2 = .int (w : Int)) (g8 : env 8 = .int (H : Int))
+    (hlo : lo < 256) (hhi : hi < 256) (hH : H ≤ w + 1) (hH2 : w + 1 - H ≤ 8) (hw : w + 1 < 9223372036854775808) :
+    evalV G env (.op2 (.or .i64) (.var 7) (.op2 (.shl .i64) (.var 9) (.op2 (.sub .i64) (.op2 (.add .i64) (.var 2) (.lit 1)) (.var 8))))
+      = some (.int ((lo ||| (hi <<< (w + 1 - H)) : Nat) : Int)) := by
+  have a1 : evalV G env (.op2 (.add .i64) (.var 2) (.lit 1)) = some (.int ((w + 1 : Nat) : Int)) := by
+    have h1 : evalOp2 (.add .i64) (w : Int) 1 = some ((w + 1 : Nat) : Int) := add_i64_nat (b := 1) hw
+    rw [evalV_op2, evalV_var, g2, evalV_lit]
+    simp only [h1, Option.map_some]
+  have a2 : evalV G env (.op2 (.sub .i64) (.op2 (.add .i64) (.var 2) (.lit 1)) (.var 8))
+      = some (.int ((w + 1 - H : Nat) : Int)) := by
+    rw [evalV_op2, a1, evalV_var, g8]
+    simp only [sub_i64_nat hH hw, Option.map_some]
+  have hp : 2 ^ (w + 1 - H) ≤ 2 ^ 8 := Nat.pow_le_pow_right (by omega) hH2
+  have hmul : hi * 2 ^ (w + 1 - H) < 65536 := by
+    have : hi * 2 ^ (w + 1 - H) ≤ 255 * 2 ^ 8 := Nat.mul_le_mul (by omega) hp
+    omega
+  have a3 : evalV G env (.op2 (.shl .i64) (.var 9) (.op2 (.sub .i64) (.op2 (.add .i64) (.var 2) (.lit 1)) (.var 8)))
+      = some (.int ((hi <<< (w + 1 - H) : Nat) : Int)) := by
+    rw [evalV_op2, evalV_var, g9, a2]
+    simp only [shl_i64_nat (show hi * 2 ^ (w + 1 - H) < 9223372036854775808 by omega), Option.map_some]
+  have hsl : hi <<< (w + 1 - H) < 65536 := by rw [Nat.shiftLeft_eq]; exact hmul
+  rw [evalV_op2, evalV_var, g7, a3]
+  simp only [or_i64_nat (show lo < 9223372036854775808 by omega)
+    (show hi <<< (w + 1 - H) < 9223372036854775808 by omega), Option.map_some]
+
+
+theorem fn_2_body' : fn_2.body =
+    seqs [.assign 4 [] (.op1 (.shrc 3) (.var 1)),
+      .assign 5 [] (.op2 (.sub .i64) (.lit 7) (.op2 (.and .i64) (.var 1) (.lit 7))),
+      .assign 6 [] (.op2 (.sub .i64) (.op2 (.shl .i64) (.lit 1) (.op2 (.add .i64) (.var 2) (.lit 1))) (.lit 1)),
+      bitsRest] := rfl
+
+/-- getBits, body level: the model returns `d` ⇒ the body returns `[d]`.  Domain: 0 ≤ idx < 2^63, 0 ≤ w ≤ 61. -/
+theorem getBits_body_ok (s : Bytes) (idx w : Nat) (hidx : idx < 9223372036854775808) (hw : w ≤ 61)
+    (d : Nat) (h : Model.Utils.getBits s idx w = .ok d) :
+    ∃ env', EvIn P G X fuelBit (Env.ofList [bytesV s, .int (idx : Int), .int (w : Int)]) fn_2.body env'
+      (.ret [.int (d : Int)]) := by
+  rw [getBits_unfold] at h
+  simp only [Outcome.idx] at h
+  cases hb : s[idx / 8]? with
+  | none => simp [hb] at h
+  | some b =>
+    simp only [hb, Outcome.bind_ok] at h
+    have hK : 7 - idx % 8 ≤ 7 := by omega
+    have hp := two_pow_lt63 (show w + 1 ≤ 62 by omega)
+    have hbyte := b.toNat_lt
+    generalize hKdef : 7 - idx % 8 = K at *
+    generalize hBdef : idx / 8 = B at *
+    have hBlt : B < 9223372036854775808 := by omega
+    let lo : Nat := (b.toNat >>> K) &&& (2 ^ (w + 1) - 1)
+    have hlo : lo < 256 :=
+      Nat.lt_of_le_of_lt Nat.and_le_left (Nat.lt_of_le_of_lt (Nat.shiftRight_le _ _) (by omega))
+    let e3 : Env := envBits s idx w
+    have g0 : e3 0 = bytesV s := by simp [e3, envBits, Env.set, Env.ofList]
+    have g2 : e3 2 = .int (w : Int) := by simp [e3, envBits, Env.set, Env.ofList]
+    have g4 : e3 4 = .int (B : Int) := by simp [e3, envBits, Env.set, hBdef]
+    have g5 : e3 5 = .int (K : Int) := by simp [e3, envBits, Env.set, hKdef]
+    have g6 : e3 6 = .int ((2 ^ (w + 1) - 1 : Nat) : Int) := by simp [e3, envBits]
+    have s4 := bits_lo (G := G) g0 g4 g5 g6 (by omega) hb
+    let e4 := e3.set 7 (.int (lo : Int))
+    have k2 : e4 2 = .int (w : Int) := by simp [e4, Env.set, g2]
+    have k4 : e4 4 = .int (B : Int) := by simp [e4, Env.set, g4]
+    have k5 : e4 5 = .int (K : Int) := by simp [e4, Env.set, g5]
+    have hc := bits_cond (G := G) k4 k5 k2 (show K + w + 1 < 9223372036854775808 by omega)
+    have pre : ∀ {F env' c}, F ≤ 10 → EvIn P G X F e4 (seqs [.ite (.op2 .land (.op2 .gt (.op2 (.add .i64) (.op2 (.add .i64) (.var 5) (.var 2)) (.lit 1)) (.lit 7)) (.op2 .gt (.var 4) (.lit 0)))
+        (seqs [.assign 8 [] (.op2 (.sub .i64) (.op2 (.add .i64) (.op2 (.add .i64) (.var 5) (.var 2)) (.lit 1)) (.lit 8)),
+          .assign 9 [] (.op1 (.conv .i64) (.op2 (.and .u8) (.idx (.var 0) (.op2 (.sub .i64) (.var 4) (.lit 1))) (.op2 (.sub .u8) (.op2 (.shl .u8) (.lit 1) (.var 8)) (.lit 1)))),
+          .assign 7 [] (.op2 (.or .i64) (.var 7) (.op2 (.shl .i64) (.var 9) (.op2 (.sub .i64) (.op2 (.add .i64) (.var 2) (.lit 1)) (.var 8))))]) .skip,
+        .ret [(.var 7)], .panic]) env' c →
+        EvIn P G X fuelBit (Env.ofList [bytesV s, .int (idx : Int), .int (w : Int)]) fn_2.body env' c := by
+      intro F env' c hF hr
+      rw [fn_2_body']
+      exact ((bits_prologue (P := P) (G := G) (X := X) s idx w hidx hw bitsRest).1
+        (EvIn.seq (EvIn.assign s4) hr)).mono (by simp only [fuelBit]; omega)
+    by_cases hcond : K + w + 1 > 7 ∧ B > 0
+    · rw [if_pos hcond] at h hc
+      cases hbh : s[B - 1]? with
+      | none => simp [hbh] at h
+      | some bh =>
+        simp only [hbh, Outcome.bind_ok, Outcome.ok.injEq] at h
+        have hbh8 : bh.toNat < 256 := by have := bh.toNat_lt; omega
+        let H : Nat := K + w + 1 - 8
+        let hi : Nat := bh.toNat &&& (2 ^ H - 1)
+        have hhi : hi < 256 := Nat.lt_of_le_of_lt Nat.and_le_left hbh8
+        have s8 : evalV G e4 (.op2 (.sub .i64) (.op2 (.add .i64) (.op2 (.add .i64) (.var 5) (.var 2)) (.lit 1)) (.lit 8))
+            = some (.int (H : Int)) := by
+          have h1 : evalOp2 (.sub .i64) ((K + w + 1 : Nat) : Int) 8 = some ((K + w + 1 - 8 : Nat) : Int) :=
+            sub_i64_nat (b := 8) (by omega) (by omega)
+          rw [evalV_op2, bits_sum k5 k2 (by omega), evalV_lit]
+          simp only [h1, Option.map_some, H]
+        let e5 := e4.set 8 (.int (H : Int))
+        have l0 : e5 0 = bytesV s := by simp [e5, e4, Env.set, g0]
+        have l4 : e5 4 = .int (B : Int) := by simp [e5, Env.set, k4]
+        have l8 : e5 8 = .int (H : Int) := by simp [e5]
+        have s9 := bits_hi (G := G) l0 l4 l8 hcond.2 hBlt hbh
+        let e6 := e5.set 9 (.int (hi : Int))
+        have m7 : e6 7 = .int (lo : Int) := by simp [e6, e5, e4, Env.set]
+        have m9 : e6 9 = .int (hi : Int) := by simp [e6]
+        have m2 : e6 2 = .int (w : Int) := by simp [e6, e5, Env.set, k2]
+        have m8 : e6 8 = .int (H : Int) := by simp [e6, e5, Env.set]
+        have s7 := bits_or (G := G) m7 m9 m2 m8 hlo hhi (show H ≤ w + 1 by omega) (show w + 1 - H ≤ 8 by omega) (by omega)
+        let e7 := e6.set 7 (.int ((lo ||| (hi <<< (w + 1 - H)) : Nat) : Int))
+        have hr : evalVs G e7 [(.var 7)] = some [.int (d : Int)] := by
+          simp only [evalVs_cons, evalVs_nil, evalV_var, e7, Env.set_same, ← h, lo, hi, H]
+        exact ⟨e7, pre (by decide) (EvIn.seq (EvIn.ite (d := true) hc rfl
+          (EvIn.seq (EvIn.assign s8) (EvIn.seq (EvIn.assign s9) (EvIn.assign s7))))
+          (EvIn.seq_stop (EvIn.ret hr) (by simp)))⟩
+    · rw [if_neg hcond] at h hc
+      simp only [Outcome.ok.injEq] at h
+      have hr : evalVs G e4 [(.var 7)] = some [.int (d : Int)] := by
+        simp only [evalVs_cons, evalVs_nil, evalV_var, e4, Env.set_same, ← h, lo]
+      exact ⟨e4, pre (by decide) (EvIn.seq (EvIn.ite (d := false) hc rfl (EvIn.skip _))
+          (EvIn.seq_stop (EvIn.ret hr) (by simp)))⟩
+
+
+/-- getBits, body level: the model panics (index out of range) ⇒ the body is stuck -/
+theorem getBits_body_stuck (s : Bytes) (idx w : Nat) (hidx : idx < 9223372036854775808) (hw : w ≤ 61)
+    (h : Model.Utils.getBits s idx w = .panic) :
+    Stuck P G X (Env.ofList [bytesV s, .int (idx : Int), .int (w : Int)]) fn_2.body := by
+  rw [getBits_unfold] at h
+  simp only [Outcome.idx] at h
+  cases hb : s[idx / 8]? with
+  | some b =>
+    exfalso
+    simp only [hb, Outcome.bind_ok] at h
+    split at h
+    · cases hbh : s[idx / 8 - 1]? with
+      | some bh => simp [hbh] at h
+      | none =>
+        have h1 : idx / 8 < s.length := (List.getElem?_eq_some_iff.mp hb).1
+        have h2 : s.length ≤ idx / 8 - 1 := List.getElem?_eq_none_iff.mp hbh
+        omega
+    · cases h
+  | none =>
+    let e3 : Env := envBits s idx w
+    have g0 : e3 0 = bytesV s := by simp [e3, envBits, Env.set, Env.ofList]
+    have g4 : e3 4 = .int ((idx / 8 : Nat) : Int) := by simp [e3, envBits, Env.set]
+    rw [fn_2_body']
+    refine (bits_prologue (P := P) (G := G) (X := X) s idx w hidx hw bitsRest).2 (Stuck.seq_left (Stuck.assign ?_))
+    show evalV G e3 _ = none
+    simp only [evalV_op1, evalV_op2, evalV_idx, evalV_var, g0, g4, bytesV, getIdx_ofNat,
+      List.getElem?_map, hb, Option.map_none]
+
+/-- getBits, run level -/
+theorem ir_getBits_ok (s : Bytes) (idx w : Nat) (hidx : idx < 9223372036854775808) (hw : w ≤ 61)
+    (d : Nat) (h : Model.Utils.getBits s idx w = .ok d) :
+    ∀ f, fuelBit ≤ f → runV prog G X f f_utils_getBits [bytesV s, .int (idx : Int), .int (w : Int)]
+      = .ret [.int (d : Int)] := by
+  obtain ⟨env', hb⟩ := getBits_body_ok (P := prog) (G := G) (X := X) s idx w hidx hw d h
+  exact runV_of_EvIn fn2_lookup rfl rfl hb
+
+theorem ir_getBits_panic (s : Bytes) (idx w : Nat) (hidx : idx < 9223372036854775808) (hw : w ≤ 61)
+    (h : Model.Utils.getBits s idx w = .panic) :
+    ∀ f, runV prog G X f f_utils_getBits [bytesV s, .int (idx : Int), .int (w : Int)] = .stuck :=
+  runV_of_Stuck fn2_lookup (getBits_body_stuck (P := prog) (G := G) (X := X) s idx w hidx hw h)
+
+/-- the result of getBits is small (two bytes at most) -/
+theorem getBits_lt (s : Bytes) (idx w d : Nat) (h : Model.Utils.getBits s idx w = .ok d) : d < 65536 := by
+  rw [getBits_unfold] at h
+  simp only [Outcome.idx] at h
+  cases hb : s[idx / 8]? with
+  | none => simp [hb] at h
+  | some b =>
+    simp only [hb, Outcome.bind_ok] at h
+    have hbyte := b.toNat_lt
+    have hlo : (b.toNat >>> (7 - idx % 8)) &&& (2 ^ (w + 1) - 1) < 256 :=
+      Nat.lt_of_le_of_lt Nat.and_le_left (Nat.lt_of_le_of_lt (Nat.shiftRight_le _ _) (by omega))
+    split at h
+    · rename_i hc
+      cases hbh : s[idx / 8 - 1]? with
+      | none => simp [hbh] at h
+      | some bh =>
+        simp only [hbh, Outcome.bind_ok, Outcome.ok.injEq] at h
+        have hbh8 : bh.toNat < 256 := by have := bh.toNat_lt; omega
+        have hhi : bh.toNat &&& (2 ^ (7 - idx % 8 + w + 1 - 8) - 1) < 256 := Nat.lt_of_le_of_lt Nat.and_le_left hbh8
+        have hk : w + 1 - (7 - idx % 8 + w + 1 - 8) ≤ 8 := by omega
+        generalize w + 1 - (7 - idx % 8 + w + 1 - 8) = k at *
+        generalize bh.toNat &&& (2 ^ (7 - idx % 8 + w + 1 - 8) - 1) = hi at *
+        generalize (b.toNat >>> (7 - idx % 8)) &&& (2 ^ (w + 1) - 1) = lo at *
+        have hp : 2 ^ k ≤ 2 ^ 8 := Nat.pow_le_pow_right (by omega) hk
+        have hmul : hi * 2 ^ k ≤ 255 * 2 ^ 8 := Nat.mul_le_mul (by omega) hp
+        have hsl : hi <<< k < 2 ^ 16 := by rw [Nat.shiftLeft_eq]; omega
+        have : lo ||| hi <<< k < 2 ^ 16 := Nat.or_lt_two_pow (by omega) hsl
+        omega
+    · simp only [Outcome.ok.injEq] at h
+      omega
+
+
 end GetBits
+
+/-! ## DecomposeNAF -/
+
+/-- `if d&1 == 0 && oldCarry { d += 1 }` -/
+def dAdj (d0 : Nat) (oldCarry : Bool) : Int := if d0 % 2 = 0 ∧ oldCarry = true then (d0 : Int) + 1 else (d0 : Int)
+/-- `if d >= halfWindow { d -= windowSize; carry = true }` -/
+def dFin (w : Nat) (d1 : Int) (c : Bool) : Int × Bool :=
+  if d1 ≥ ((2 ^ w : Nat) : Int) then (d1 - ((2 ^ (w + 1) : Nat) : Int), true) else (d1, c)
+
+theorem nafLoop_zero (s : Bytes) (n w outIdx : Nat) (carry : Bool) (out : List Int) :
+    Model.Utils.nafLoop s n w 0 outIdx carry out = .ok (out, carry) := rfl
+
+theorem nafLoop_succ (s : Bytes) (n w fuel outIdx : Nat) (carry : Bool) (out : List Int) :
+    Model.Utils.nafLoop s n w (fuel + 1) outIdx carry out =
+      if outIdx + 1 < n then
+        Model.Utils.getBit s (n - outIdx - 1 - 1) carry >>= fun p =>
+          if p.1 = 1 then
+            Model.Utils.getBits s (n - outIdx - 1 - 1) w >>= fun d0 =>
+              Model.Utils.setIdx out outIdx (dFin w (dAdj d0 carry) p.2).1 >>= fun out' =>
+                Model.Utils.nafLoop s n w fuel (outIdx + w + 1) (dFin w (dAdj d0 carry) p.2).2 out'
+          else Model.Utils.nafLoop s n w fuel (outIdx + 1) p.2 out
+      else .ok (out, carry) := by
+  rfl
+
+theorem updPath_ints (out : List Int) (k : Nat) (v : Int) (h : k < out.length) :
+    updPath (intsV out) [k] (.int v) = some (intsV (out.set k v)) := by
+  have hk : (out.map Val.int)[k]? = some (Val.int out[k]) := by
+    rw [List.getElem?_map, List.getElem?_eq_getElem h]; rfl
+  simp [updPath, intsV, hk, List.map_set]
+
+theorem updPath_ints_none (out : List Int) (k : Nat) (v : Val) (h : out.length ≤ k) :
+    updPath (intsV out) [k] v = none := by
+  have hk : (out.map Val.int)[k]? = none := by
+    rw [List.getElem?_map, List.getElem?_eq_none h]; rfl
+  simp [updPath, intsV, hk]
+
+def condE : Expr := .op2 .lt (.var 8) (.op2 (.sub .i64) (.var 2) (.lit 1))
+def hitS : Stmt := seqs [.call [14] 2 [(.var 1), (.op2 (.sub .i64) (.var 9) (.lit 1)), (.var 3)],
+    .assign 15 [] (.var 14),
+    .ite (.op2 .land (.op2 .eq (.op2 (.and .i64) (.var 15) (.lit 1)) (.lit 0)) (.var 10)) (.assign 15 [] (.op2 (.add .i64) (.var 15) (.lit 1))) .skip,
+    .ite (.op2 .ge (.var 15) (.var 6)) (seqs [.assign 15 [] (.op2 (.sub .i64) (.var 15) (.var 5)),
+    .assign 7 [] (.lit 1)]) .skip,
+    .assign 0 [.e (.var 8)] (.var 15),
+    .assign 8 [] (.op2 (.add .i64) (.var 8) (.var 3))]
+def iteS : Stmt := .ite (.op2 .eq (.var 11) (.lit 1)) hitS .skip
+def bodyS : Stmt := seqs [.assign 9 [] (.op2 (.sub .i64) (.op2 (.sub .i64) (.var 2) (.var 8)) (.lit 1)),
+    .assign 10 [] (.var 7),
+    .assign 11 [] (.lit 0),
+    .call [12, 13] 1 [(.var 1), (.op2 (.sub .i64) (.var 9) (.lit 1)), (.var 7)],
+    .assign 11 [] (.var 12),
+    .assign 7 [] (.var 13),
+    iteS]
+def postS : Stmt := .assign 8 [] (.op2 (.add .i64) (.var 8) (.lit 1))
+def loopS : Stmt := .loop condE bodyS postS
+
+theorem fn_0_body : fn_0.body =
+    seqs [.ite (.op2 .lor (.op2 .lor (.op2 .lor (.lit 0) (.lit 0)) (.op2 .le (.var 3) (.lit 0))) (.op2 .gt (.var 3) (.lit 7))) (.panic) .skip,
+      .assign 5 [] (.op2 (.shl .i64) (.lit 1) (.op2 (.add .i64) (.var 3) (.lit 1))),
+      .assign 6 [] (.op2 (.shl .i64) (.lit 1) (.var 3)),
+      .assign 7 [] (.lit 0),
+      .assign 8 [] (.lit 0),
+      loopS,
+      .ite (.var 7) (.assign 0 [.e (.op2 (.sub .i64) (.var 2) (.lit 1))] (.lit 1)) .skip,
+      .ret [(.var 0)]] := rfl
+
+section Naf
+variable {P : Prog} {G : Nat → Val} {X : Oracle}
+
+/-- the state at the head of the loop -/
+structure Inv (env : Env) (out : List Int) (s : Bytes) (n w : Nat) (carry : Bool) (outIdx : Nat) : Prop where
+  h0 : env 0 = intsV out
+  h1 : env 1 = bytesV s
+  h2 : env 2 = .int (n : Int)
+  h3 : env 3 = .int (w : Int)
+  h5 : env 5 = .int ((2 ^ (w + 1) : Nat) : Int)
+  h6 : env 6 = .int ((2 ^ w : Nat) : Int)
+  h7 : env 7 = boolV carry
+  h8 : env 8 = .int (outIdx : Int)
+
+/-- the loop condition `outIdx < n-1` -/
+theorem cond_val {env : Env} {n outIdx : Nat} (h2 : env 2 = .int (n : Int)) (h8 : env 8 = .int (outIdx : Int))
+    (hn : n < 9223372036854775808) :
+    evalV G env condE = some (.int (if outIdx + 1 < n then 1 else 0)) := by
+  have t1 : evalV G env (.op2 (.sub .i64) (.var 2) (.lit 1)) = some (.int ((n : Int) - 1)) := by
+    rw [evalV_op2, evalV_var, h2, evalV_lit]
+    simp only [evalOp2, Option.map_some]
+    rw [norm_i64_small (by omega) (by omega)]
+  rw [condE, evalV_op2, evalV_var, h8, t1]
+  simp only [evalOp2, Option.map_some, ofBool]
+  by_cases h : outIdx + 1 < n
+  · have : (outIdx : Int) < (n : Int) - 1 := by omega
+    simp [h, this]
+  · have : ¬ (outIdx : Int) < (n : Int) - 1 := by omega
+    simp [h, this]
+
+/-- the prefix of the body: bitIdx, oldCarry, the call of getBit -/
+theorem round_pre (hP1 : P[1]? = some fn_1) {env : Env} {out : List Int} {s : Bytes} {n w outIdx : Nat} {carry : Bool}
+    (h : Inv env out s n w carry outIdx) (hlt : outIdx + 1 < n) (hn : n < 9223372036854775808)
+    {bit : Nat} {c' : Bool} (hg : Model.Utils.getBit s (n - outIdx - 1 - 1) carry = .ok (bit, c')) :
+    ∃ e6, (∀ {F rest env' c}, EvIn P G X F e6 rest env' c →
+        EvIn P G X (F + 32) env (seqs [.assign 9 [] (.op2 (.sub .i64) (.op2 (.sub .i64) (.var 2) (.var 8)) (.lit 1)),
+          .assign 10 [] (.var 7), .assign 11 [] (.lit 0),
+          .call [12, 13] 1 [(.var 1), (.op2 (.sub .i64) (.var 9) (.lit 1)), (.var 7)],
+          .assign 11 [] (.var 12), .assign 7 [] (.var 13), rest]) env' c) ∧
+      (∀ {rest}, Stuck P G X e6 rest →
+        Stuck P G X env (seqs [.assign 9 [] (.op2 (.sub .i64) (.op2 (.sub .i64) (.var 2) (.var 8)) (.lit 1)),
+          .assign 10 [] (.var 7), .assign 11 [] (.lit 0),
+          .call [12, 13] 1 [(.var 1), (.op2 (.sub .i64) (.var 9) (.lit 1)), (.var 7)],
+          .assign 11 [] (.var 12), .assign 7 [] (.var 13), rest])) ∧
+      Inv e6 out s n w c' outIdx ∧ e6 9 = .int ((n - outIdx - 1 : Nat) : Int) ∧ e6 10 = boolV carry ∧
+      e6 11 = .int (bit : Int) := by
+  obtain ⟨h0, h1, h2, h3, h5, h6, h7, h8⟩ := h
+  let bi : Nat := n - outIdx - 1
+  let e1 := env.set 9 (.int (bi : Int))
+  let e2 := e1.set 10 (boolV carry)
+  let e3 := e2.set 11 (.int 0)
+  let e4 := (e3.set 12 (.int (bit : Int))).set 13 (boolV c')
+  let e5 := e4.set 11 (.int (bit : Int))
+  let e6 := e5.set 7 (boolV c')
+  have s9 : evalV G env (.op2 (.sub .i64) (.op2 (.sub .i64) (.var 2) (.var 8)) (.lit 1)) = some (.int (bi : Int)) := by
+    have t1 : evalV G env (.op2 (.sub .i64) (.var 2) (.var 8)) = some (.int ((n - outIdx : Nat) : Int)) := by
+      rw [evalV_op2, evalV_var, evalV_var, h2, h8]
+      simp only [sub_i64_nat (show outIdx ≤ n by omega) hn, Option.map_some]
+    have h1' : evalOp2 (.sub .i64) ((n - outIdx : Nat) : Int) 1 = some ((n - outIdx - 1 : Nat) : Int) :=
+      sub_i64_nat (b := 1) (by omega) (by omega)
+    rw [evalV_op2, t1, evalV_lit]
+    simp only [h1', Option.map_some, bi]
+  have s10 : evalV G e1 (.var 7) = some (boolV carry) := by simp [e1, Env.set, h7]
+  have g1 : e3 1 = bytesV s := by simp [e3, e2, e1, Env.set, h1]
+  have g7 : e3 7 = boolV carry := by simp [e3, e2, e1, Env.set, h7]
+  have g9 : e3 9 = .int (bi : Int) := by simp [e3, e2, e1, Env.set]
+  have sub1 : evalV G e3 (.op2 (.sub .i64) (.var 9) (.lit 1)) = some (.int ((n - outIdx - 1 - 1 : Nat) : Int)) := by
+    have h1' : evalOp2 (.sub .i64) (bi : Int) 1 = some ((bi - 1 : Nat) : Int) :=
+      sub_i64_nat (b := 1) (by omega) (by omega)
+    rw [evalV_op2, evalV_var, g9, evalV_lit]
+    simp only [h1', Option.map_some, bi]
+  have args : evalVs G e3 [(.var 1), (.op2 (.sub .i64) (.var 9) (.lit 1)), (.var 7)]
+      = some [bytesV s, .int ((n - outIdx - 1 - 1 : Nat) : Int), boolV carry] := by
+    simp only [evalVs_cons, evalVs_nil, evalV_var, sub1, g1, g7]
+  obtain ⟨envc, hcall⟩ := getBit_body_ok (P := P) (G := G) (X := X) s (n - outIdx - 1 - 1) carry (by omega) bit c' hg
+  have call : EvIn P G X (fuelBit + 1) e3 (.call [12, 13] 1 [(.var 1), (.op2 (.sub .i64) (.var 9) (.lit 1)), (.var 7)])
+      e4 .norm := EvIn.call args hP1 rfl rfl hcall rfl
+  have s11 : evalV G e4 (.var 12) = some (.int (bit : Int)) := by simp [e4, Env.set]
+  have s7 : evalV G e5 (.var 13) = some (boolV c') := by simp [e5, e4, Env.set]
+  refine ⟨e6, ?_, ?_, ⟨?_, ?_, ?_, ?_, ?_, ?_, ?_, ?_⟩, ?_, ?_, ?_⟩
+  · intro F rest env' c hr
+    exact (EvIn.seq (EvIn.assign s9) (EvIn.seq (EvIn.assign s10) (EvIn.seq (EvIn.assign (v := .int 0) rfl)
+      (EvIn.seq call (EvIn.seq (EvIn.assign s11) (EvIn.seq (EvIn.assign s7) hr)))))).mono
+      (by simp only [fuelBit]; omega)
+  · intro rest hr
+    exact Stuck.seq_right (EvIn.assign s9) (Stuck.seq_right (EvIn.assign s10) (Stuck.seq_right (EvIn.assign (v := .int 0) rfl)
+      (Stuck.seq_right call (Stuck.seq_right (EvIn.assign s11) (Stuck.seq_right (EvIn.assign s7) hr)))))
+  · simp [e6, e5, e4, e3, e2, e1, Env.set, h0]
+  · simp [e6, e5, e4, e3, e2, e1, Env.set, h1]
+  · simp [e6, e5, e4, e3, e2, e1, Env.set, h2]
+  · simp [e6, e5, e4, e3, e2, e1, Env.set, h3]
+  · simp [e6, e5, e4, e3, e2, e1, Env.set, h5]
+  · simp [e6, e5, e4, e3, e2, e1, Env.set, h6]
+  · simp [e6]
+  · simp [e6, e5, e4, e3, e2, e1, Env.set, h8]
+  · simp [e6, e5, e4, e3, e2, e1, Env.set, bi]
+  · simp [e6, e5, e4, e3, e2, e1, Env.set]
+  · simp [e6, e5, Env.set]
+
+/-- `if d&1 == 0 && oldCarry { d += 1 }` -/
+theorem adj_step {env : Env} {d0 : Nat} {oc : Bool} (h15 : env 15 = .int (d0 : Int)) (h10 : env 10 = boolV oc)
+    (hd : d0 < 65536) :
+    ∃ env', EvIn P G X 2 env (.ite (.op2 .land (.op2 .eq (.op2 (.and .i64) (.var 15) (.lit 1)) (.lit 0)) (.var 10))
+        (.assign 15 [] (.op2 (.add .i64) (.var 15) (.lit 1))) .skip) env' .norm ∧
+      env' 15 = .int (dAdj d0 oc) ∧ ∀ y, y ≠ 15 → env' y = env y := by
+  have t1 : evalV G env (.op2 (.and .i64) (.var 15) (.lit 1)) = some (.int ((d0 % 2 : Nat) : Int)) := by
+    have h1 : evalOp2 (.and .i64) (d0 : Int) 1 = some ((d0 &&& 1 : Nat) : Int) :=
+      and_i64_nat (b := 1) (by omega) (by omega)
+    rw [evalV_op2, evalV_var, h15, evalV_lit]
+    simp only [h1, Option.map_some, Nat.and_one_is_mod]
+  have t2 : evalV G env (.op2 .eq (.op2 (.and .i64) (.var 15) (.lit 1)) (.lit 0))
+      = some (.int (if d0 % 2 = 0 then 1 else 0)) := by
+    rw [evalV_op2, t1, evalV_lit]
+    simp only [evalOp2, Option.map_some, ofBool]
+    by_cases hz : d0 % 2 = 0
+    · simp [hz]
+    · have : ¬ ((d0 : Int) % 2 = 0) := by omega
+      simp [hz, this]
+  have hc : evalV G env (.op2 .land (.op2 .eq (.op2 (.and .i64) (.var 15) (.lit 1)) (.lit 0)) (.var 10))
+      = some (.int (if d0 % 2 = 0 ∧ oc = true then 1 else 0)) := by
+    rw [evalV_op2, t2, evalV_var, h10]
+    simp only [evalOp2, Option.map_some, ofBool, boolV]
+    by_cases hz : d0 % 2 = 0 <;> cases oc <;> simp [hz]
+  by_cases hcond : d0 % 2 = 0 ∧ oc = true
+  · rw [if_pos hcond] at hc
+    have sa : evalV G env (.op2 (.add .i64) (.var 15) (.lit 1)) = some (.int ((d0 : Int) + 1)) := by
+      rw [evalV_op2, evalV_var, h15, evalV_lit]
+      simp only [evalOp2, Option.map_some]
+      rw [norm_i64_small (by omega) (by omega)]
+    refine ⟨env.set 15 (.int ((d0 : Int) + 1)), EvIn.ite (d := true) hc rfl (EvIn.assign sa), ?_, ?_⟩
+    · simp [dAdj, hcond]
+    · intro y hy; simp [Env.set, hy]
+  · rw [if_neg hcond] at hc
+    refine ⟨env, EvIn.ite (d := false) hc rfl (EvIn.skip _), ?_, fun _ _ => rfl⟩
+    rw [h15, dAdj, if_neg hcond]
+
+/-- `if d >= halfWindow { d -= windowSize; carry = true }` -/
+theorem fin_step {env : Env} {d1 : Int} {w : Nat} {c : Bool} (h15 : env 15 = .int d1)
+    (h5 : env 5 = .int ((2 ^ (w + 1) : Nat) : Int)) (h6 : env 6 = .int ((2 ^ w : Nat) : Int)) (h7 : env 7 = boolV c)
+    (hd0 : 0 ≤ d1) (hd1 : d1 ≤ 65536) (hw : w ≤ 7) :
+    ∃ env', EvIn P G X 4 env (.ite (.op2 .ge (.var 15) (.var 6)) (seqs [.assign 15 [] (.op2 (.sub .i64) (.var 15) (.var 5)),
+        .assign 7 [] (.lit 1)]) .skip) env' .norm ∧
+      env' 15 = .int (dFin w d1 c).1 ∧ env' 7 = boolV (dFin w d1 c).2 ∧ ∀ y, y ≠ 15 → y ≠ 7 → env' y = env y := by
+  have hp5 : 2 ^ (w + 1) ≤ 2 ^ 8 := Nat.pow_le_pow_right (by omega) (by omega)
+  have hc : evalV G env (.op2 .ge (.var 15) (.var 6)) = some (.int (if d1 ≥ ((2 ^ w : Nat) : Int) then 1 else 0)) := by
+    rw [evalV_op2, evalV_var, evalV_var, h15, h6]
+    simp only [evalOp2, Option.map_some, ofBool]
+    by_cases hge : d1 ≥ ((2 ^ w : Nat) : Int) <;> simp
+  by_cases hge : d1 ≥ ((2 ^ w : Nat) : Int)
+  · rw [if_pos hge] at hc
+    have sa : evalV G env (.op2 (.sub .i64) (.var 15) (.var 5)) = some (.int (d1 - ((2 ^ (w + 1) : Nat) : Int))) := by
+      rw [evalV_op2, evalV_var, evalV_var, h15, h5]
+      simp only [evalOp2, Option.map_some]
+      generalize 2 ^ (w + 1) = p5 at *
+      rw [norm_i64_small (by omega) (by omega)]
+    refine ⟨(env.set 15 (.int (d1 - ((2 ^ (w + 1) : Nat) : Int)))).set 7 (.int 1),
+      EvIn.ite (d := true) hc rfl ((EvIn.seq (EvIn.assign sa) (EvIn.assign rfl)).mono (by decide)), ?_, ?_, ?_⟩
+    · rw [dFin, if_pos hge]; simp [Env.set]
+    · rw [dFin, if_pos hge]; simp [Env.set, boolV]
+    · intro y hy hy7; simp [Env.set, hy, hy7]
+  · rw [if_neg hge] at hc
+    refine ⟨env, (EvIn.ite (d := false) hc rfl (EvIn.skip _)).mono (by decide), ?_, ?_, fun _ _ _ => rfl⟩
+    · rw [h15, dFin, if_neg hge]
+    · rw [h7, dFin, if_neg hge]
+
+
+/-- the `bit == 1` branch up to the two adjustments of `d` -/
+theorem hit_pre (hP2 : P[2]? = some fn_2) {e6 : Env} {out : List Int} {s : Bytes} {n w outIdx : Nat} {c' carry : Bool}
+    (hI : Inv e6 out s n w c' outIdx) (h9 : e6 9 = .int ((n - outIdx - 1 : Nat) : Int)) (h10 : e6 10 = boolV carry)
+    (hlt : outIdx + 1 < n) (hn : n < 9223372036854775808) (hw : w ≤ 7)
+    {d0 : Nat} (hgb : Model.Utils.getBits s (n - outIdx - 1 - 1) w = .ok d0) :
+    ∃ f4, (∀ {F rest env' c}, EvIn P G X F f4 rest env' c →
+        EvIn P G X (F + 32) e6 (seqs [.call [14] 2 [(.var 1), (.op2 (.sub .i64) (.var 9) (.lit 1)), (.var 3)],
+          .assign 15 [] (.var 14),
+          .ite (.op2 .land (.op2 .eq (.op2 (.and .i64) (.var 15) (.lit 1)) (.lit 0)) (.var 10)) (.assign 15 [] (.op2 (.add .i64) (.var 15) (.lit 1))) .skip,
+          .ite (.op2 .ge (.var 15) (.var 6)) (seqs [.assign 15 [] (.op2 (.sub .i64) (.var 15) (.var 5)), .assign 7 [] (.lit 1)]) .skip,
+          rest]) env' c) ∧
+      (∀ {rest}, Stuck P G X f4 rest →
+        Stuck P G X e6 (seqs [.call [14] 2 [(.var 1), (.op2 (.sub .i64) (.var 9) (.lit 1)), (.var 3)],
+          .assign 15 [] (.var 14),
+          .ite (.op2 .land (.op2 .eq (.op2 (.and .i64) (.var 15) (.lit 1)) (.lit 0)) (.var 10)) (.assign 15 [] (.op2 (.add .i64) (.var 15) (.lit 1))) .skip,
+          .ite (.op2 .ge (.var 15) (.var 6)) (seqs [.assign 15 [] (.op2 (.sub .i64) (.var 15) (.var 5)), .assign 7 [] (.lit 1)]) .skip,
+          rest])) ∧
+      f4 15 = .int (dFin w (dAdj d0 carry) c').1 ∧
+      Inv f4 out s n w (dFin w (dAdj d0 carry) c').2 outIdx := by
+  obtain ⟨h0, h1, h2, h3, h5, h6, h7, h8⟩ := hI
+  have hd0 := getBits_lt s _ w d0 hgb
+  have sub1 : evalV G e6 (.op2 (.sub .i64) (.var 9) (.lit 1)) = some (.int ((n - outIdx - 1 - 1 : Nat) : Int)) := by
+    have h1' : evalOp2 (.sub .i64) ((n - outIdx - 1 : Nat) : Int) 1 = some ((n - outIdx - 1 - 1 : Nat) : Int) :=
+      sub_i64_nat (b := 1) (by omega) (by omega)
+    rw [evalV_op2, evalV_var, h9, evalV_lit]
+    simp only [h1', Option.map_some]
+  have args : evalVs G e6 [(.var 1), (.op2 (.sub .i64) (.var 9) (.lit 1)), (.var 3)]
+      = some [bytesV s, .int ((n - outIdx - 1 - 1 : Nat) : Int), .int (w : Int)] := by
+    simp only [evalVs_cons, evalVs_nil, evalV_var, sub1, h1, h3]
+  obtain ⟨envc, hcall⟩ := getBits_body_ok (P := P) (G := G) (X := X) s (n - outIdx - 1 - 1) w (by omega) (by omega) d0 hgb
+  let f1 := e6.set 14 (.int (d0 : Int))
+  let f2 := f1.set 15 (.int (d0 : Int))
+  have call : EvIn P G X (fuelBit + 1) e6 (.call [14] 2 [(.var 1), (.op2 (.sub .i64) (.var 9) (.lit 1)), (.var 3)])
+      f1 .norm := EvIn.call args hP2 rfl rfl hcall rfl
+  have s15 : evalV G f1 (.var 14) = some (.int (d0 : Int)) := by simp [f1]
+  have k15 : f2 15 = .int (d0 : Int) := by simp [f2]
+  have k10 : f2 10 = boolV carry := by simp [f2, f1, Env.set, h10]
+  obtain ⟨f3, hadj, a15, afr⟩ := adj_step (P := P) (G := G) (X := X) k15 k10 hd0
+  have hadj0 : 0 ≤ dAdj d0 carry := by unfold dAdj; split <;> omega
+  have hadj1 : dAdj d0 carry ≤ 65536 := by unfold dAdj; split <;> omega
+  have b5 : f3 5 = .int ((2 ^ (w + 1) : Nat) : Int) := by rw [afr 5 (by decide)]; simp [f2, f1, Env.set, h5]
+  have b6 : f3 6 = .int ((2 ^ w : Nat) : Int) := by rw [afr 6 (by decide)]; simp [f2, f1, Env.set, h6]
+  have b7 : f3 7 = boolV c' := by rw [afr 7 (by decide)]; simp [f2, f1, Env.set, h7]
+  obtain ⟨f4, hfin, c15, c7, cfr⟩ := fin_step (P := P) (G := G) (X := X) a15 b5 b6 b7 hadj0 hadj1 hw
+  have fr : ∀ y, y ≠ 15 → y ≠ 7 → y ≠ 14 → f4 y = e6 y := by
+    intro y h15 h7 h14
+    rw [cfr y h15 h7, afr y h15]
+    simp [f2, f1, Env.set, h15, h14]
+  refine ⟨f4, ?_, ?_, c15, ⟨?_, ?_, ?_, ?_, ?_, ?_, c7, ?_⟩⟩
+  · intro F rest env' c hr
+    exact (EvIn.seq call (EvIn.seq (EvIn.assign s15) (EvIn.seq hadj (EvIn.seq hfin hr)))).mono
+      (by simp only [fuelBit]; omega)
+  · intro rest hr
+    exact Stuck.seq_right call (Stuck.seq_right (EvIn.assign s15) (Stuck.seq_right hadj (Stuck.seq_right hfin hr)))
+  · rw [fr 0 (by decide) (by decide) (by decide), h0]
+  · rw [fr 1 (by decide) (by decide) (by decide), h1]
+  · rw [fr 2 (by decide) (by decide) (by decide), h2]
+  · rw [fr 3 (by decide) (by decide) (by decide), h3]
+  · rw [fr 5 (by decide) (by decide) (by decide), h5]
+  · rw [fr 6 (by decide) (by decide) (by decide), h6]
+  · rw [fr 8 (by decide) (by decide) (by decide), h8]
+
+/-- `out[outIdx] = d; outIdx += w` -/
+theorem hit_post {f4 : Env} {out : List Int} {s : Bytes} {n w outIdx : Nat} {c2 : Bool} {d2 : Int}
+    (hI : Inv f4 out s n w c2 outIdx) (h15 : f4 15 = .int d2) (hin : outIdx < out.length)
+    (hov : outIdx + w < 9223372036854775808) :
+    ∃ f6, EvIn P G X 3 f4 (seqs [.assign 0 [.e (.var 8)] (.var 15), .assign 8 [] (.op2 (.add .i64) (.var 8) (.var 3))]) f6 .norm ∧
+      Inv f6 (out.set outIdx d2) s n w c2 (outIdx + w) := by
+  obtain ⟨h0, h1, h2, h3, h5, h6, h7, h8⟩ := hI
+  have he : evalV G f4 (.var 15) = some (.int d2) := by rw [evalV_var, h15]
+  have hp : pathV G f4 [.e (.var 8)] = some [outIdx] := by
+    have : ¬ ((outIdx : Int) < 0) := by omega
+    simp only [pathV_e, evalV_var, h8, pathV_nil, this, if_false, Int.toNat_natCast]
+  have hu : updPath (f4 0) [outIdx] (.int d2) = some (intsV (out.set outIdx d2)) := by
+    rw [h0]; exact updPath_ints out outIdx d2 hin
+  let f5 := f4.set 0 (intsV (out.set outIdx d2))
+  have s8 : evalV G f5 (.op2 (.add .i64) (.var 8) (.var 3)) = some (.int ((outIdx + w : Nat) : Int)) := by
+    have g8 : f5 8 = .int (outIdx : Int) := by simp [f5, Env.set, h8]
+    have g3 : f5 3 = .int (w : Int) := by simp [f5, Env.set, h3]
+    rw [evalV_op2, evalV_var, evalV_var, g8, g3]
+    simp only [add_i64_nat hov, Option.map_some]
+  refine ⟨f5.set 8 (.int ((outIdx + w : Nat) : Int)), EvIn.seq (EvIn.assignPath he hp hu) (EvIn.assign s8),
+    ⟨?_, ?_, ?_, ?_, ?_, ?_, ?_, ?_⟩⟩
+  · simp [f5, Env.set]
+  · simp [f5, Env.set, h1]
+  · simp [f5, Env.set, h2]
+  · simp [f5, Env.set, h3]
+  · simp [f5, Env.set, h5]
+  · simp [f5, Env.set, h6]
+  · simp [f5, Env.set, h7]
+  · simp [f5, Env.set]
+
+/-- `out[outIdx] = d` with the index out of range -/
+theorem hit_post_stuck {f4 : Env} {out : List Int} {s : Bytes} {n w outIdx : Nat} {c2 : Bool} {d2 : Int}
+    (hI : Inv f4 out s n w c2 outIdx) (h15 : f4 15 = .int d2) (hout : out.length ≤ outIdx) :
+    Stuck P G X f4 (seqs [.assign 0 [.e (.var 8)] (.var 15), .assign 8 [] (.op2 (.add .i64) (.var 8) (.var 3))]) := by
+  have he : evalV G f4 (.var 15) = some (.int d2) := by rw [evalV_var, h15]
+  have hp : pathV G f4 [.e (.var 8)] = some [outIdx] := by
+    have : ¬ ((outIdx : Int) < 0) := by omega
+    simp only [pathV_e, evalV_var, hI.h8, pathV_nil, this, if_false, Int.toNat_natCast]
+  have hu : updPath (f4 0) [outIdx] (.int d2) = none := by
+    rw [hI.h0]; exact updPath_ints_none out outIdx _ hout
+  exact Stuck.seq_left (Stuck.assign_upd he hp hu)
+
+/-- `outIdx++` -/
+theorem post_step {env : Env} {out : List Int} {s : Bytes} {n w k : Nat} {c : Bool}
+    (hI : Inv env out s n w c k) (hov : k + 1 < 9223372036854775808) :
+    ∃ env2, EvIn P G X 1 env postS env2 .norm ∧ Inv env2 out s n w c (k + 1) := by
+  obtain ⟨h0, h1, h2, h3, h5, h6, h7, h8⟩ := hI
+  have s8 : evalV G env (.op2 (.add .i64) (.var 8) (.lit 1)) = some (.int ((k + 1 : Nat) : Int)) := by
+    have h1' : evalOp2 (.add .i64) (k : Int) 1 = some ((k + 1 : Nat) : Int) := add_i64_nat (b := 1) hov
+    rw [evalV_op2, evalV_var, h8, evalV_lit]
+    simp only [h1', Option.map_some]
+  refine ⟨env.set 8 (.int ((k + 1 : Nat) : Int)), EvIn.assign s8, ⟨?_, ?_, ?_, ?_, ?_, ?_, ?_, ?_⟩⟩ <;>
+    simp [Env.set, *]
+
+
+theorem ite_cond {env : Env} {bit : Nat} (h11 : env 11 = .int (bit : Int)) :
+    evalV G env (.op2 .eq (.var 11) (.lit 1)) = some (.int (if bit = 1 then 1 else 0)) := by
+  rw [evalV_op2, evalV_var, h11, evalV_lit]
+  simp only [evalOp2, Option.map_some, ofBool]
+  by_cases hb : bit = 1
+  · simp [hb]
+  · have : ¬ ((bit : Int) = 1) := by omega
+    simp [hb, this]
+
+/-- one round with `bit ≠ 1` -/
+theorem round_miss (hP1 : P[1]? = some fn_1) {env : Env} {out : List Int} {s : Bytes} {n w outIdx : Nat} {carry : Bool}
+    (h : Inv env out s n w carry outIdx) (hlt : outIdx + 1 < n) (hn : n < 9223372036854775808)
+    {bit : Nat} {c' : Bool} (hg : Model.Utils.getBit s (n - outIdx - 1 - 1) carry = .ok (bit, c')) (hb : bit ≠ 1) :
+    ∃ env1, EvIn P G X 68 env bodyS env1 .norm ∧ Inv env1 out s n w c' outIdx := by
+  obtain ⟨e6, hpre, _, hI, _, _, h11⟩ := round_pre (G := G) (X := X) hP1 h hlt hn hg
+  have hc := ite_cond (G := G) h11
+  rw [if_neg hb] at hc
+  exact ⟨e6, (hpre (rest := iteS) (EvIn.ite (d := false) hc rfl (EvIn.skip _))).mono (by decide), hI⟩
+
+/-- one round with `bit = 1` and the store in range -/
+theorem round_hit (hP1 : P[1]? = some fn_1) (hP2 : P[2]? = some fn_2) {env : Env} {out : List Int} {s : Bytes}
+    {n w outIdx : Nat} {carry : Bool}
+    (h : Inv env out s n w carry outIdx) (hlt : outIdx + 1 < n) (hn : n + 6 < 9223372036854775808) (hw : w ≤ 7)
+    {c' : Bool} (hg : Model.Utils.getBit s (n - outIdx - 1 - 1) carry = .ok (1, c'))
+    {d0 : Nat} (hgb : Model.Utils.getBits s (n - outIdx - 1 - 1) w = .ok d0) (hin : outIdx < out.length) :
+    ∃ env1, EvIn P G X 68 env bodyS env1 .norm ∧
+      Inv env1 (out.set outIdx (dFin w (dAdj d0 carry) c').1) s n w (dFin w (dAdj d0 carry) c').2 (outIdx + w) := by
+  obtain ⟨e6, hpre, _, hI, h9, h10, h11⟩ := round_pre (G := G) (X := X) hP1 h hlt (by omega) hg
+  have hc := ite_cond (G := G) h11
+  rw [if_pos rfl] at hc
+  obtain ⟨f4, hhit, _, h15, hI4⟩ := hit_pre (G := G) (X := X) hP2 hI h9 h10 hlt (by omega) hw hgb
+  obtain ⟨f6, hpost, hI6⟩ := hit_post (P := P) (G := G) (X := X) hI4 h15 hin (by omega)
+  exact ⟨f6, (hpre (rest := iteS) (EvIn.ite (d := true) hc rfl (hhit hpost))).mono (by decide), hI6⟩
+
+/-- the loop computes `nafLoop` -/
+theorem loop_ok (hP1 : P[1]? = some fn_1) (hP2 : P[2]? = some fn_2) (s : Bytes) (n w : Nat)
+    (hn : n + 6 < 9223372036854775808) (hw : w ≤ 7) :
+    ∀ (fuel : Nat) (env : Env) (out : List Int) (carry : Bool) (outIdx : Nat) (out' : List Int) (carry' : Bool),
+    Inv env out s n w carry outIdx → n ≤ outIdx + fuel →
+    Model.Utils.nafLoop s n w fuel outIdx carry out = .ok (out', carry') →
+    ∃ env' k, EvIn P G X (70 * fuel + 1) env loopS env' .norm ∧ Inv env' out' s n w carry' k := by
+  intro fuel
+  induction fuel with
+  | zero =>
+    intro env out carry outIdx out' carry' hI hfuel hm
+    rw [nafLoop_zero] at hm
+    simp only [Outcome.ok.injEq, Prod.mk.injEq] at hm
+    obtain ⟨rfl, rfl⟩ := hm
+    have hc := cond_val (G := G) hI.h2 hI.h8 (by omega)
+    rw [if_neg (by omega)] at hc
+    exact ⟨env, outIdx, EvIn.loop_exit hc rfl, hI⟩
+  | succ fuel ih =>
+    intro env out carry outIdx out' carry' hI hfuel hm
+    rw [nafLoop_succ] at hm
+    have hc := cond_val (G := G) hI.h2 hI.h8 (by omega)
+    by_cases hlt : outIdx + 1 < n
+    · rw [if_pos hlt] at hm hc
+      cases hg : Model.Utils.getBit s (n - outIdx - 1 - 1) carry with
+      | err => rw [hg] at hm; cases hm
+      | panic => rw [hg] at hm; cases hm
+      | ok p =>
+        obtain ⟨bit, c'⟩ := p
+        rw [hg, Outcome.bind_ok] at hm
+        dsimp only at hm
+        by_cases hb : bit = 1
+        · subst hb
+          rw [if_pos rfl] at hm
+          cases hgb : Model.Utils.getBits s (n - outIdx - 1 - 1) w with
+          | err => rw [hgb] at hm; cases hm
+          | panic => rw [hgb] at hm; cases hm
+          | ok d0 =>
+            rw [hgb, Outcome.bind_ok] at hm
+            by_cases hin : outIdx < out.length
+            · rw [Model.Utils.setIdx, if_pos hin, Outcome.bind_ok] at hm
+              obtain ⟨env1, hbody, hI1⟩ := round_hit (G := G) (X := X) hP1 hP2 hI hlt hn hw hg hgb hin
+              obtain ⟨env2, hpost, hI2⟩ := post_step (P := P) (G := G) (X := X) hI1 (by omega)
+              obtain ⟨env', k, hl, hI'⟩ := ih env2 _ _ (outIdx + w + 1) out' carry' hI2 (by omega) hm
+              exact ⟨env', k, (EvIn.loop_round hc rfl hbody (Or.inl rfl) hpost hl).mono (by omega), hI'⟩
+            · rw [Model.Utils.setIdx, if_neg hin] at hm; cases hm
+        · rw [if_neg hb] at hm
+          obtain ⟨env1, hbody, hI1⟩ := round_miss (G := G) (X := X) hP1 hI hlt (by omega) hg hb
+          obtain ⟨env2, hpost, hI2⟩ := post_step (P := P) (G := G) (X := X) hI1 (by omega)
+          obtain ⟨env', k, hl, hI'⟩ := ih env2 _ _ (outIdx + 1) out' carry' hI2 (by omega) hm
+          exact ⟨env', k, (EvIn.loop_round hc rfl hbody (Or.inl rfl) hpost hl).mono (by omega), hI'⟩
+    · rw [if_neg hlt] at hm hc
+      simp only [Outcome.ok.injEq, Prod.mk.injEq] at hm
+      obtain ⟨rfl, rfl⟩ := hm
+      exact ⟨env, outIdx, (EvIn.loop_exit hc rfl).mono (by omega), hI⟩
+
+
+/-- getBit panics ⇒ the body is stuck -/
+theorem round_pre_stuck (hP1 : P[1]? = some fn_1) {env : Env} {out : List Int} {s : Bytes} {n w outIdx : Nat} {carry : Bool}
+    (h : Inv env out s n w carry outIdx) (hlt : outIdx + 1 < n) (hn : n < 9223372036854775808)
+    (hg : Model.Utils.getBit s (n - outIdx - 1 - 1) carry = .panic) : Stuck P G X env bodyS := by
+  obtain ⟨h0, h1, h2, h3, h5, h6, h7, h8⟩ := h
+  let bi : Nat := n - outIdx - 1
+  let e1 := env.set 9 (.int (bi : Int))
+  let e2 := e1.set 10 (boolV carry)
+  let e3 := e2.set 11 (.int 0)
+  have s9 : evalV G env (.op2 (.sub .i64) (.op2 (.sub .i64) (.var 2) (.var 8)) (.lit 1)) = some (.int (bi : Int)) := by
+    have t1 : evalV G env (.op2 (.sub .i64) (.var 2) (.var 8)) = some (.int ((n - outIdx : Nat) : Int)) := by
+      rw [evalV_op2, evalV_var, evalV_var, h2, h8]
+      simp only [sub_i64_nat (show outIdx ≤ n by omega) hn, Option.map_some]
+    have h1' : evalOp2 (.sub .i64) ((n - outIdx : Nat) : Int) 1 = some ((n - outIdx - 1 : Nat) : Int) :=
+      sub_i64_nat (b := 1) (by omega) (by omega)
+    rw [evalV_op2, t1, evalV_lit]
+    simp only [h1', Option.map_some, bi]
+  have s10 : evalV G e1 (.var 7) = some (boolV carry) := by simp [e1, Env.set, h7]
+  have g1 : e3 1 = bytesV s := by simp [e3, e2, e1, Env.set, h1]
+  have g7 : e3 7 = boolV carry := by simp [e3, e2, e1, Env.set, h7]
+  have g9 : e3 9 = .int (bi : Int) := by simp [e3, e2, e1, Env.set]
+  have sub1 : evalV G e3 (.op2 (.sub .i64) (.var 9) (.lit 1)) = some (.int ((n - outIdx - 1 - 1 : Nat) : Int)) := by
+    have h1' : evalOp2 (.sub .i64) (bi : Int) 1 = some ((bi - 1 : Nat) : Int) :=
+      sub_i64_nat (b := 1) (by omega) (by omega)
+    rw [evalV_op2, evalV_var, g9, evalV_lit]
+    simp only [h1', Option.map_some, bi]
+  have args : evalVs G e3 [(.var 1), (.op2 (.sub .i64) (.var 9) (.lit 1)), (.var 7)]
+      = some [bytesV s, .int ((n - outIdx - 1 - 1 : Nat) : Int), boolV carry] := by
+    simp only [evalVs_cons, evalVs_nil, evalV_var, sub1, g1, g7]
+  have hcall := getBit_body_stuck (P := P) (G := G) (X := X) s (n - outIdx - 1 - 1) carry (by omega) hg
+  exact Stuck.seq_right (EvIn.assign s9) (Stuck.seq_right (EvIn.assign s10) (Stuck.seq_right (EvIn.assign (v := .int 0) rfl)
+    (Stuck.seq_left (Stuck.call args hP1 hcall))))
+
+/-- getBits panics ⇒ the `bit == 1` branch is stuck -/
+theorem hit_stuck_bits (hP2 : P[2]? = some fn_2) {e6 : Env} {out : List Int} {s : Bytes} {n w outIdx : Nat} {c' : Bool}
+    (hI : Inv e6 out s n w c' outIdx) (h9 : e6 9 = .int ((n - outIdx - 1 : Nat) : Int))
+    (hlt : outIdx + 1 < n) (hn : n < 9223372036854775808) (hw : w ≤ 7)
+    (hgb : Model.Utils.getBits s (n - outIdx - 1 - 1) w = .panic) : Stuck P G X e6 hitS := by
+  have sub1 : evalV G e6 (.op2 (.sub .i64) (.var 9) (.lit 1)) = some (.int ((n - outIdx - 1 - 1 : Nat) : Int)) := by
+    have h1' : evalOp2 (.sub .i64) ((n - outIdx - 1 : Nat) : Int) 1 = some ((n - outIdx - 1 - 1 : Nat) : Int) :=
+      sub_i64_nat (b := 1) (by omega) (by omega)
+    rw [evalV_op2, evalV_var, h9, evalV_lit]
+    simp only [h1', Option.map_some]
+  have args : evalVs G e6 [(.var 1), (.op2 (.sub .i64) (.var 9) (.lit 1)), (.var 3)]
+      = some [bytesV s, .int ((n - outIdx - 1 - 1 : Nat) : Int), .int (w : Int)] := by
+    simp only [evalVs_cons, evalVs_nil, evalV_var, sub1, hI.h1, hI.h3]
+  have hcall := getBits_body_stuck (P := P) (G := G) (X := X) s (n - outIdx - 1 - 1) w (by omega) (by omega) hgb
+  exact Stuck.seq_left (Stuck.call args hP2 hcall)
+
+/-- a run-time panic of the model's loop is a stuck run of the IR loop -/
+theorem loop_stuck (hP1 : P[1]? = some fn_1) (hP2 : P[2]? = some fn_2) (s : Bytes) (n w : Nat)
+    (hn : n + 6 < 9223372036854775808) (hw : w ≤ 7) :
+    ∀ (fuel : Nat) (env : Env) (out : List Int) (carry : Bool) (outIdx : Nat),
+    Inv env out s n w carry outIdx →
+    Model.Utils.nafLoop s n w fuel outIdx carry out = .panic → Stuck P G X env loopS := by
+  intro fuel
+  induction fuel with
+  | zero =>
+    intro env out carry outIdx hI hm
+    rw [nafLoop_zero] at hm; cases hm
+  | succ fuel ih =>
+    intro env out carry outIdx hI hm
+    rw [nafLoop_succ] at hm
+    have hc := cond_val (G := G) hI.h2 hI.h8 (by omega)
+    by_cases hlt : outIdx + 1 < n
+    · rw [if_pos hlt] at hm hc
+      cases hg : Model.Utils.getBit s (n - outIdx - 1 - 1) carry with
+      | err => rw [hg] at hm; cases hm
+      | panic => exact Stuck.loop_body hc rfl (round_pre_stuck (G := G) (X := X) hP1 hI hlt (by omega) hg)
+      | ok p =>
+        obtain ⟨bit, c'⟩ := p
+        rw [hg, Outcome.bind_ok] at hm
+        dsimp only at hm
+        by_cases hb : bit = 1
+        · subst hb
+          rw [if_pos rfl] at hm
+          obtain ⟨e6, _, hpres, hI6, h9, h10, h11⟩ := round_pre (G := G) (X := X) hP1 hI hlt (by omega) hg
+          have hci := ite_cond (G := G) h11
+          rw [if_pos rfl] at hci
+          cases hgb : Model.Utils.getBits s (n - outIdx - 1 - 1) w with
+          | err => rw [hgb] at hm; cases hm
+          | panic =>
+            exact Stuck.loop_body hc rfl (hpres (rest := iteS) (Stuck.ite (d := true) hci rfl
+              (hit_stuck_bits (G := G) (X := X) hP2 hI6 h9 hlt (by omega) hw hgb)))
+          | ok d0 =>
+            rw [hgb, Outcome.bind_ok] at hm
+            by_cases hin : outIdx < out.length
+            · rw [Model.Utils.setIdx, if_pos hin, Outcome.bind_ok] at hm
+              obtain ⟨env1, hbody, hI1⟩ := round_hit (G := G) (X := X) hP1 hP2 hI hlt hn hw hg hgb hin
+              obtain ⟨env2, hpost, hI2⟩ := post_step (P := P) (G := G) (X := X) hI1 (by omega)
+              exact Stuck.loop_round hc rfl hbody (Or.inl rfl) hpost (ih env2 _ _ (outIdx + w + 1) hI2 hm)
+            · obtain ⟨f4, _, hhits, h15, hI4⟩ := hit_pre (G := G) (X := X) hP2 hI6 h9 h10 hlt (by omega) hw hgb
+              exact Stuck.loop_body hc rfl (hpres (rest := iteS) (Stuck.ite (d := true) hci rfl
+                (hhits (hit_post_stuck (P := P) (G := G) (X := X) hI4 h15 (by omega)))))
+        · rw [if_neg hb] at hm
+          obtain ⟨env1, hbody, hI1⟩ := round_miss (G := G) (X := X) hP1 hI hlt (by omega) hg hb
+          obtain ⟨env2, hpost, hI2⟩ := post_step (P := P) (G := G) (X := X) hI1 (by omega)
+          exact Stuck.loop_round hc rfl hbody (Or.inl rfl) hpost (ih env2 _ _ (outIdx + 1) hI2 hm)
+    · rw [if_neg hlt] at hm; cases hm
+
+
+/-! ### The whole function -/
+
+theorem naf_unfold (out : List Int) (s : Bytes) (n w : Int) :
+    Model.Utils.decomposeNAF (some out) (some s) n w =
+      if w ≤ 0 ∨ w > 7 then .panic else
+        Model.Utils.nafLoop s n.toNat w.toNat n.toNat 0 false out >>= fun p =>
+          if p.2 = true then (if n - 1 < 0 then .panic else Model.Utils.setIdx p.1 (n - 1).toNat 1)
+          else .ok p.1 := rfl
+
+/-- the parameter check `w <= 0 || w > 7` (nil-ness is not represented: the two nil tests are `0`) -/
+theorem check_val {env : Env} {w : Int} (h3 : env 3 = .int w) :
+    evalV G env (.op2 .lor (.op2 .lor (.op2 .lor (.lit 0) (.lit 0)) (.op2 .le (.var 3) (.lit 0))) (.op2 .gt (.var 3) (.lit 7)))
+      = some (.int (if w ≤ 0 ∨ w > 7 then 1 else 0)) := by
+  have t0 : evalV G env (.op2 .lor (.lit 0) (.lit 0)) = some (.int 0) := by
+    simp [evalV_op2, evalOp2, ofBool]
+  have t1 : evalV G env (.op2 .le (.var 3) (.lit 0)) = some (.int (if w ≤ 0 then 1 else 0)) := by
+    rw [evalV_op2, evalV_var, h3, evalV_lit]
+    simp only [evalOp2, Option.map_some, ofBool]
+    by_cases h : w ≤ 0 <;> simp [h]
+  have t2 : evalV G env (.op2 .lor (.op2 .lor (.lit 0) (.lit 0)) (.op2 .le (.var 3) (.lit 0)))
+      = some (.int (if w ≤ 0 then 1 else 0)) := by
+    rw [evalV_op2, t0, t1]
+    simp only [evalOp2, Option.map_some, ofBool]
+    by_cases h : w ≤ 0 <;> simp [h]
+  have t3 : evalV G env (.op2 .gt (.var 3) (.lit 7)) = some (.int (if w > 7 then 1 else 0)) := by
+    rw [evalV_op2, evalV_var, h3, evalV_lit]
+    simp only [evalOp2, Option.map_some, ofBool]
+    by_cases h : w > 7 <;> simp [h]
+  rw [evalV_op2, t2, t3]
+  simp only [evalOp2, Option.map_some, ofBool]
+  by_cases h : w ≤ 0 <;> by_cases h' : w > 7 <;> simp [h, h']
+
+/-- the state before the loop -/
+def envPre (out : List Int) (s : Bytes) (n : Int) (w : Nat) : Env :=
+  ((((Env.ofList [intsV out, bytesV s, .int n, .int (w : Int)]).set 5 (.int ((2 ^ (w + 1) : Nat) : Int))).set 6
+    (.int ((2 ^ w : Nat) : Int))).set 7 (.int 0)).set 8 (.int 0)
+
+theorem prologue (out : List Int) (s : Bytes) (n : Int) (w : Nat) (hw1 : 1 ≤ w) (hw7 : w ≤ 7) (rest : Stmt) :
+    (∀ {F env' c}, EvIn P G X F (envPre out s n w) rest env' c →
+      EvIn P G X (F + 12) (Env.ofList [intsV out, bytesV s, .int n, .int (w : Int)])
+        (seqs [.ite (.op2 .lor (.op2 .lor (.op2 .lor (.lit 0) (.lit 0)) (.op2 .le (.var 3) (.lit 0))) (.op2 .gt (.var 3) (.lit 7))) (.panic) .skip,
+          .assign 5 [] (.op2 (.shl .i64) (.lit 1) (.op2 (.add .i64) (.var 3) (.lit 1))),
+          .assign 6 [] (.op2 (.shl .i64) (.lit 1) (.var 3)),
+          .assign 7 [] (.lit 0), .assign 8 [] (.lit 0), rest]) env' c) ∧
+    (Stuck P G X (envPre out s n w) rest →
+      Stuck P G X (Env.ofList [intsV out, bytesV s, .int n, .int (w : Int)])
+        (seqs [.ite (.op2 .lor (.op2 .lor (.op2 .lor (.lit 0) (.lit 0)) (.op2 .le (.var 3) (.lit 0))) (.op2 .gt (.var 3) (.lit 7))) (.panic) .skip,
+          .assign 5 [] (.op2 (.shl .i64) (.lit 1) (.op2 (.add .i64) (.var 3) (.lit 1))),
+          .assign 6 [] (.op2 (.shl .i64) (.lit 1) (.var 3)),
+          .assign 7 [] (.lit 0), .assign 8 [] (.lit 0), rest])) := by
+  let e0 : Env := Env.ofList [intsV out, bytesV s, .int n, .int (w : Int)]
+  let e1 := e0.set 5 (.int ((2 ^ (w + 1) : Nat) : Int))
+  let e2 := e1.set 6 (.int ((2 ^ w : Nat) : Int))
+  have g3 : e0 3 = .int (w : Int) := by simp [e0, Env.ofList]
+  have hc := check_val (G := G) g3
+  rw [if_neg (by omega)] at hc
+  have s5 : evalV G e0 (.op2 (.shl .i64) (.lit 1) (.op2 (.add .i64) (.var 3) (.lit 1)))
+      = some (.int ((2 ^ (w + 1) : Nat) : Int)) := by
+    have ha : evalOp2 (.add .i64) (w : Int) 1 = some ((w + 1 : Nat) : Int) := add_i64_nat (b := 1) (by omega)
+    have t1 : evalV G e0 (.op2 (.add .i64) (.var 3) (.lit 1)) = some (.int ((w + 1 : Nat) : Int)) := by
+      rw [evalV_op2, evalV_var, g3, evalV_lit]
+      simp only [ha, Option.map_some]
+    rw [evalV_op2, t1, evalV_lit]
+    simp only [shl_i64_one (show w + 1 ≤ 62 by omega), Option.map_some]
+  have s6 : evalV G e1 (.op2 (.shl .i64) (.lit 1) (.var 3)) = some (.int ((2 ^ w : Nat) : Int)) := by
+    have k3 : e1 3 = .int (w : Int) := by simp [e1, Env.set, g3]
+    rw [evalV_op2, evalV_lit, evalV_var, k3]
+    simp only [shl_i64_one (show w ≤ 62 by omega), Option.map_some]
+  constructor
+  · intro F env' c hr
+    exact (EvIn.seq (EvIn.ite (d := false) hc rfl (EvIn.skip _)) (EvIn.seq (EvIn.assign s5) (EvIn.seq (EvIn.assign s6)
+      (EvIn.seq (EvIn.assign (v := .int 0) rfl) (EvIn.seq (EvIn.assign (v := .int 0) rfl) hr))))).mono (by omega)
+  · intro hr
+    exact Stuck.seq_right (EvIn.ite (d := false) hc rfl (EvIn.skip _)) (Stuck.seq_right (EvIn.assign s5)
+      (Stuck.seq_right (EvIn.assign s6) (Stuck.seq_right (EvIn.assign (v := .int 0) rfl)
+      (Stuck.seq_right (EvIn.assign (v := .int 0) rfl) hr))))
+
+
+def tailS : Stmt :=
+  seqs [.ite (.var 7) (.assign 0 [.e (.op2 (.sub .i64) (.var 2) (.lit 1))] (.lit 1)) .skip, .ret [(.var 0)]]
+
+theorem asBool_boolV (c : Bool) : asBool (boolV c) = some c := by cases c <;> rfl
+
+theorem nm1_val {env : Env} {n : Int} (h2 : env 2 = .int n) (hn1 : -9223372036854775808 < n) (hn2 : n < 9223372036854775808) :
+    evalV G env (.op2 (.sub .i64) (.var 2) (.lit 1)) = some (.int (n - 1)) := by
+  rw [evalV_op2, evalV_var, h2, evalV_lit]
+  simp only [evalOp2, Option.map_some]
+  rw [norm_i64_small (by omega) (by omega)]
+
+/-- `if carry { out[n-1] = 1 }` and the return of the written slice -/
+theorem epilogue_ok {env : Env} {out' : List Int} {n : Int} {c : Bool} (h0 : env 0 = intsV out') (h2 : env 2 = .int n)
+    (h7 : env 7 = boolV c) (hn1 : -9223372036854775808 < n) (hn2 : n < 9223372036854775808) {r : List Int}
+    (hm : (if c = true then (if n - 1 < 0 then Outcome.panic else Model.Utils.setIdx out' (n - 1).toNat 1)
+      else Outcome.ok out') = .ok r) :
+    ∃ env', EvIn P G X 4 env tailS env' (.ret [intsV r]) := by
+  have hc : evalV G env (.var 7) = some (boolV c) := by rw [evalV_var, h7]
+  cases c with
+  | false =>
+    simp only [Bool.false_eq_true, if_false, Outcome.ok.injEq] at hm
+    subst hm
+    have hr : evalVs G env [(.var 0)] = some [intsV out'] := by
+      simp only [evalVs_cons, evalVs_nil, evalV_var, h0]
+    exact ⟨env, EvIn.seq (EvIn.ite (d := false) hc (asBool_boolV false) (EvIn.skip _)) (EvIn.ret hr)⟩
+  | true =>
+    simp only [if_true] at hm
+    by_cases hneg : n - 1 < 0
+    · rw [if_pos hneg] at hm; cases hm
+    · rw [if_neg hneg] at hm
+      by_cases hin : (n - 1).toNat < out'.length
+      · rw [Model.Utils.setIdx, if_pos hin] at hm
+        simp only [Outcome.ok.injEq] at hm
+        subst hm
+        have he : evalV G env (.lit 1) = some (.int 1) := rfl
+        have hp : pathV G env [.e (.op2 (.sub .i64) (.var 2) (.lit 1))] = some [(n - 1).toNat] := by
+          simp only [pathV_e, nm1_val h2 hn1 hn2, pathV_nil, hneg, if_false]
+        have hu : updPath (env 0) [(n - 1).toNat] (.int 1) = some (intsV (out'.set (n - 1).toNat 1)) := by
+          rw [h0]; exact updPath_ints out' _ 1 hin
+        have hr : evalVs G (env.set 0 (intsV (out'.set (n - 1).toNat 1))) [(.var 0)]
+            = some [intsV (out'.set (n - 1).toNat 1)] := by
+          simp only [evalVs_cons, evalVs_nil, evalV_var, Env.set_same]
+        exact ⟨_, EvIn.seq (EvIn.ite (d := true) hc (asBool_boolV true) (EvIn.assignPath he hp hu)) (EvIn.ret hr)⟩
+      · rw [Model.Utils.setIdx, if_neg hin] at hm; cases hm
+
+theorem epilogue_stuck {env : Env} {out' : List Int} {n : Int} {c : Bool} (h0 : env 0 = intsV out') (h2 : env 2 = .int n)
+    (h7 : env 7 = boolV c) (hn1 : -9223372036854775808 < n) (hn2 : n < 9223372036854775808)
+    (hm : (if c = true then (if n - 1 < 0 then Outcome.panic else Model.Utils.setIdx out' (n - 1).toNat 1)
+      else Outcome.ok out') = .panic) :
+    Stuck P G X env tailS := by
+  have hc : evalV G env (.var 7) = some (boolV c) := by rw [evalV_var, h7]
+  cases c with
+  | false => simp at hm
+  | true =>
+    simp only [if_true] at hm
+    by_cases hneg : n - 1 < 0
+    · have hp : pathV G env [.e (.op2 (.sub .i64) (.var 2) (.lit 1))] = none := by
+        simp only [pathV_e, nm1_val h2 hn1 hn2, pathV_nil, hneg, if_true]
+      exact Stuck.seq_left (Stuck.ite (d := true) hc (asBool_boolV true) (Stuck.assign_path hp))
+    · rw [if_neg hneg] at hm
+      by_cases hin : (n - 1).toNat < out'.length
+      · rw [Model.Utils.setIdx, if_pos hin] at hm; cases hm
+      · have he : evalV G env (.lit 1) = some (.int 1) := rfl
+        have hp : pathV G env [.e (.op2 (.sub .i64) (.var 2) (.lit 1))] = some [(n - 1).toNat] := by
+          simp only [pathV_e, nm1_val h2 hn1 hn2, pathV_nil, hneg, if_false]
+        have hu : updPath (env 0) [(n - 1).toNat] (.int 1) = none := by
+          rw [h0]; exact updPath_ints_none out' _ _ (by omega)
+        exact Stuck.seq_left (Stuck.ite (d := true) hc (asBool_boolV true) (Stuck.assign_upd he hp hu))
+
+
+theorem loop_phase_ok (hP1 : P[1]? = some fn_1) (hP2 : P[2]? = some fn_2) (out : List Int) (s : Bytes) (n : Int) (w : Nat)
+    (hn1 : -9223372036854775808 < n) (hn2 : n + 6 < 9223372036854775808) (hw7 : w ≤ 7)
+    (out' : List Int) (carry' : Bool)
+    (hm : Model.Utils.nafLoop s n.toNat w n.toNat 0 false out = .ok (out', carry')) :
+    ∃ env', EvIn P G X (70 * n.toNat + 1) (envPre out s n w) loopS env' .norm ∧
+      env' 0 = intsV out' ∧ env' 2 = .int n ∧ env' 7 = boolV carry' := by
+  have e2 : (envPre out s n w) 2 = .int n := by simp [envPre, Env.set, Env.ofList]
+  have e8 : (envPre out s n w) 8 = .int ((0 : Nat) : Int) := by simp [envPre, Env.set]
+  by_cases hpos : 0 ≤ n
+  · obtain ⟨N, rfl⟩ : ∃ N : Nat, n = (N : Int) := ⟨n.toNat, by omega⟩
+    rw [Int.toNat_natCast] at hm ⊢
+    have hI : Inv (envPre out s (N : Int) w) out s N w false 0 :=
+      ⟨by simp [envPre, Env.set, Env.ofList], by simp [envPre, Env.set, Env.ofList], e2,
+        by simp [envPre, Env.set, Env.ofList], by simp [envPre, Env.set], by simp [envPre, Env.set],
+        by simp [envPre, Env.set, boolV], e8⟩
+    obtain ⟨env', k, hl, hI'⟩ := loop_ok (G := G) (X := X) hP1 hP2 s N w (by omega) hw7 N _ out false 0 out' carry' hI
+      (by omega) hm
+    exact ⟨env', hl, hI'.h0, hI'.h2, hI'.h7⟩
+  · have hz : n.toNat = 0 := by omega
+    rw [hz] at hm ⊢
+    rw [nafLoop_zero] at hm
+    simp only [Outcome.ok.injEq, Prod.mk.injEq] at hm
+    obtain ⟨rfl, rfl⟩ := hm
+    have hc : evalV G (envPre out s n w) condE = some (.int 0) := by
+      rw [condE, evalV_op2, evalV_var, e8, nm1_val e2 hn1 (by omega)]
+      simp [evalOp2, ofBool]
+      omega
+    exact ⟨_, EvIn.loop_exit hc rfl, by simp [envPre, Env.set, Env.ofList], e2, by simp [envPre, Env.set, boolV]⟩
+
+theorem loop_phase_stuck (hP1 : P[1]? = some fn_1) (hP2 : P[2]? = some fn_2) (out : List Int) (s : Bytes) (n : Int) (w : Nat)
+    (hn2 : n + 6 < 9223372036854775808) (hw7 : w ≤ 7)
+    (hm : Model.Utils.nafLoop s n.toNat w n.toNat 0 false out = .panic) :
+    Stuck P G X (envPre out s n w) loopS := by
+  by_cases hpos : 0 ≤ n
+  · obtain ⟨N, rfl⟩ : ∃ N : Nat, n = (N : Int) := ⟨n.toNat, by omega⟩
+    rw [Int.toNat_natCast] at hm
+    have hI : Inv (envPre out s (N : Int) w) out s N w false 0 :=
+      ⟨by simp [envPre, Env.set, Env.ofList], by simp [envPre, Env.set, Env.ofList], by simp [envPre, Env.set, Env.ofList],
+        by simp [envPre, Env.set, Env.ofList], by simp [envPre, Env.set], by simp [envPre, Env.set],
+        by simp [envPre, Env.set, boolV], by simp [envPre, Env.set]⟩
+    exact loop_stuck (G := G) (X := X) hP1 hP2 s N w (by omega) hw7 N _ out false 0 hI hm
+  · have hz : n.toNat = 0 := by omega
+    rw [hz, nafLoop_zero] at hm; cases hm
+
+/-- fuel that suffices for DecomposeNAF on bit-length argument `n` -/
+def fuelNaf (n : Int) : Nat := 70 * n.toNat + 20
+
+/-- body level (for callers: `EvIn.call`), for any program `P` whose functions 1 and 2 are getBit and getBits:
+    the model returns `r` ⇒ the body returns the written slice `r` -/
+theorem naf_body_ok (hP1 : P[1]? = some fn_1) (hP2 : P[2]? = some fn_2) (out : List Int) (s : Bytes) (n w : Int)
+    (hn1 : -9223372036854775808 < n) (hn2 : n + 6 < 9223372036854775808) (r : List Int)
+    (h : Model.Utils.decomposeNAF (some out) (some s) n w = .ok r) :
+    ∃ env', EvIn P G X (fuelNaf n) (Env.ofList [intsV out, bytesV s, .int n, .int w]) fn_0.body env' (.ret [intsV r]) := by
+  rw [naf_unfold] at h
+  by_cases hw : w ≤ 0 ∨ w > 7
+  · rw [if_pos hw] at h; cases h
+  · rw [if_neg hw] at h
+    obtain ⟨W, rfl⟩ : ∃ W : Nat, w = (W : Int) := ⟨w.toNat, by omega⟩
+    rw [Int.toNat_natCast] at h
+    cases hm : Model.Utils.nafLoop s n.toNat W n.toNat 0 false out with
+    | err => rw [hm] at h; cases h
+    | panic => rw [hm] at h; cases h
+    | ok p =>
+      obtain ⟨out', carry'⟩ := p
+      rw [hm, Outcome.bind_ok] at h
+      dsimp only at h
+      obtain ⟨env1, hloop, h0, h2, h7⟩ := loop_phase_ok (G := G) (X := X) hP1 hP2 out s n W hn1 hn2 (by omega)
+        out' carry' hm
+      obtain ⟨env2, hep⟩ := epilogue_ok (P := P) (G := G) (X := X) h0 h2 h7 hn1 (by omega) h
+      have hbody := (prologue (P := P) (G := G) (X := X) out s n W (by omega) (by omega) (.seq loopS tailS)).1
+        (EvIn.seq hloop hep)
+      exact ⟨env2, by rw [fn_0_body]; exact hbody.mono (by simp only [fuelNaf]; omega)⟩
+
+/-- body level: a run-time panic of the model (index out of range) ⇒ the body is stuck -/
+theorem naf_body_stuck (hP1 : P[1]? = some fn_1) (hP2 : P[2]? = some fn_2) (out : List Int) (s : Bytes) (n w : Int)
+    (hn1 : -9223372036854775808 < n) (hn2 : n + 6 < 9223372036854775808) (hw : ¬ (w ≤ 0 ∨ w > 7))
+    (h : Model.Utils.decomposeNAF (some out) (some s) n w = .panic) :
+    Stuck P G X (Env.ofList [intsV out, bytesV s, .int n, .int w]) fn_0.body := by
+  rw [naf_unfold, if_neg hw] at h
+  obtain ⟨W, rfl⟩ : ∃ W : Nat, w = (W : Int) := ⟨w.toNat, by omega⟩
+  rw [Int.toNat_natCast] at h
+  rw [fn_0_body]
+  apply (prologue (P := P) (G := G) (X := X) out s n W (by omega) (by omega) (.seq loopS tailS)).2
+  cases hm : Model.Utils.nafLoop s n.toNat W n.toNat 0 false out with
+  | err => rw [hm] at h; cases h
+  | panic =>
+    exact Stuck.seq_left (loop_phase_stuck (G := G) (X := X) hP1 hP2 out s n W hn2 (by omega) hm)
+  | ok p =>
+    obtain ⟨out', carry'⟩ := p
+    rw [hm, Outcome.bind_ok] at h
+    dsimp only at h
+    obtain ⟨env1, hloop, h0, h2, h7⟩ := loop_phase_ok (G := G) (X := X) hP1 hP2 out s n W hn1 hn2 (by omega)
+      out' carry' hm
+    exact Stuck.seq_right hloop (epilogue_stuck (P := P) (G := G) (X := X) h0 h2 h7 hn1 (by omega) h)
+
+/-- body level: the explicit `panic("nil or invalid parameters")` -/
+theorem naf_body_panic (out : List Int) (s : Bytes) (n w : Int) (hw : w ≤ 0 ∨ w > 7) :
+    EvIn P G X 3 (Env.ofList [intsV out, bytesV s, .int n, .int w]) fn_0.body
+      (Env.ofList [intsV out, bytesV s, .int n, .int w]) .panic := by
+  have g3 : (Env.ofList [intsV out, bytesV s, .int n, .int w]) 3 = .int w := by simp [Env.ofList]
+  have hc := check_val (G := G) g3
+  rw [if_pos hw] at hc
+  rw [fn_0_body]
+  exact EvIn.seq_stop (EvIn.ite (d := true) hc rfl (EvIn.panic _)) (by simp)
+
+
+/-- `n` within 6 of `math.MaxInt64` and a byte string shorter than 2^60 bytes: the first `getBit` is out of range on
+    both sides (so the wrap-around of `outIdx`, which needs the first round to pass, cannot be observed) -/
+theorem naf_big (hP1 : P[1]? = some fn_1) (out : List Int) (s : Bytes) (n w : Int)
+    (hn2 : n < 9223372036854775808) (hbig : 9223372036854775808 ≤ n + 6) (hs : s.length < 1152921504606846976)
+    (hw : ¬ (w ≤ 0 ∨ w > 7)) :
+    Model.Utils.decomposeNAF (some out) (some s) n w = .panic ∧
+      Stuck P G X (Env.ofList [intsV out, bytesV s, .int n, .int w]) fn_0.body := by
+  obtain ⟨W, rfl⟩ : ∃ W : Nat, w = (W : Int) := ⟨w.toNat, by omega⟩
+  obtain ⟨M, rfl⟩ : ∃ M : Nat, n = ((M + 1 : Nat) : Int) := ⟨n.toNat - 1, by omega⟩
+  have hg : Model.Utils.getBit s (M + 1 - 0 - 1 - 1) false = .panic := by
+    have hnone : s[(M + 1 - 0 - 1 - 1) / 8]? = none := List.getElem?_eq_none (by omega)
+    rw [getBit_unfold]
+    simp only [Outcome.idx, hnone]
+    rfl
+  constructor
+  · rw [naf_unfold, if_neg hw, Int.toNat_natCast, Int.toNat_natCast, nafLoop_succ, if_pos (by omega), hg]
+    rfl
+  · have hI : Inv (envPre out s ((M + 1 : Nat) : Int) W) out s (M + 1) W false 0 :=
+      ⟨by simp [envPre, Env.set, Env.ofList], by simp [envPre, Env.set, Env.ofList], by simp [envPre, Env.set, Env.ofList],
+        by simp [envPre, Env.set, Env.ofList], by simp [envPre, Env.set], by simp [envPre, Env.set],
+        by simp [envPre, Env.set, boolV], by simp [envPre, Env.set]⟩
+    have hc := cond_val (G := G) hI.h2 hI.h8 (by omega)
+    rw [if_pos (by omega)] at hc
+    rw [fn_0_body]
+    apply (prologue (P := P) (G := G) (X := X) out s _ W (by omega) (by omega) (.seq loopS tailS)).2
+    exact Stuck.seq_left (Stuck.loop_body hc rfl (round_pre_stuck (G := G) (X := X) hP1 hI (by omega) (by omega) hg))
+
+
+/-- RECORDED DISAGREEMENT (the reason for the hypothesis `math.MinInt64 < n`): for `n = math.MinInt64`, a valid
+    window and any byte string shorter than 2^60 bytes, the model takes `n.toNat = 0` iterations and returns `out`
+    unchanged, while Go and the IR wrap `n-1` to `math.MaxInt64`, enter the loop and panic at
+    `s[(MaxInt64-1)>>3]` in the first `getBit` (index out of range: the IR run is stuck with every fuel). -/
+theorem naf_minInt64_disagree (hP1 : P[1]? = some fn_1) (out : List Int) (s : Bytes) (w : Nat) (hw1 : 1 ≤ w) (hw7 : w ≤ 7)
+    (hs : s.length < 1152921504606846976) :
+    Model.Utils.decomposeNAF (some out) (some s) (-9223372036854775808) (w : Int) = .ok out ∧
+      Stuck P G X (Env.ofList [intsV out, bytesV s, .int (-9223372036854775808), .int (w : Int)]) fn_0.body := by
+  constructor
+  · rw [naf_unfold, if_neg (by omega)]
+    have hz : (-9223372036854775808 : Int).toNat = 0 := rfl
+    rw [hz, nafLoop_zero]
+    rfl
+  · let e0 := envPre out s (-9223372036854775808) w
+    have g1 : e0 1 = bytesV s := by simp [e0, envPre, Env.set, Env.ofList]
+    have g2 : e0 2 = .int (-9223372036854775808) := by simp [e0, envPre, Env.set, Env.ofList]
+    have g7 : e0 7 = boolV false := by simp [e0, envPre, Env.set, boolV]
+    have g8 : e0 8 = .int 0 := by simp [e0, envPre]
+    have hc : evalV G e0 condE = some (.int 1) := by
+      simp only [condE, evalV_op2, evalV_var, evalV_lit, g2, g8, evalOp2, Option.map_some, norm]
+      rfl
+    have s9 : evalV G e0 (.op2 (.sub .i64) (.op2 (.sub .i64) (.var 2) (.var 8)) (.lit 1))
+        = some (.int ((9223372036854775807 : Nat) : Int)) := by
+      simp only [evalV_op2, evalV_var, evalV_lit, g2, g8, evalOp2, Option.map_some, norm]
+      rfl
+    let e1 := e0.set 9 (.int ((9223372036854775807 : Nat) : Int))
+    let e2 := e1.set 10 (boolV false)
+    let e3 := e2.set 11 (.int 0)
+    have s10 : evalV G e1 (.var 7) = some (boolV false) := by simp [e1, Env.set, g7]
+    have k1 : e3 1 = bytesV s := by simp [e3, e2, e1, Env.set, g1]
+    have k7 : e3 7 = boolV false := by simp [e3, e2, e1, Env.set, g7]
+    have k9 : e3 9 = .int ((9223372036854775807 : Nat) : Int) := by simp [e3, e2, e1, Env.set]
+    have sub1 : evalV G e3 (.op2 (.sub .i64) (.var 9) (.lit 1)) = some (.int ((9223372036854775806 : Nat) : Int)) := by
+      have h1' : evalOp2 (.sub .i64) ((9223372036854775807 : Nat) : Int) 1 = some ((9223372036854775807 - 1 : Nat) : Int) :=
+        sub_i64_nat (b := 1) (by omega) (by omega)
+      rw [evalV_op2, evalV_var, k9, evalV_lit]
+      simp only [h1', Option.map_some]
+    have args : evalVs G e3 [(.var 1), (.op2 (.sub .i64) (.var 9) (.lit 1)), (.var 7)]
+        = some [bytesV s, .int ((9223372036854775806 : Nat) : Int), boolV false] := by
+      simp only [evalVs_cons, evalVs_nil, evalV_var, sub1, k1, k7]
+    have hg : Model.Utils.getBit s 9223372036854775806 false = .panic := by
+      have hnone : s[9223372036854775806 / 8]? = none := List.getElem?_eq_none (by omega)
+      rw [getBit_unfold]
+      simp only [Outcome.idx, hnone]
+      rfl
+    have hcall := getBit_body_stuck (P := P) (G := G) (X := X) s 9223372036854775806 false (by omega) hg
+    rw [fn_0_body]
+    apply (prologue (P := P) (G := G) (X := X) out s _ w hw1 hw7 (.seq loopS tailS)).2
+    exact Stuck.seq_left (Stuck.loop_body hc rfl (Stuck.seq_right (EvIn.assign s9) (Stuck.seq_right (EvIn.assign s10)
+      (Stuck.seq_right (EvIn.assign (v := .int 0) rfl) (Stuck.seq_left (Stuck.call args hP1 hcall))))))
+
+
+end Naf
+
+/-! ### Run level -/
+
+section Run
+variable {G : Nat → Val} {X : Oracle}
+
+/-- DecomposeNAF: the model returns `r` ⇒ every run of the IR with fuel ≥ `fuelNaf n` returns the written slice `r` -/
+theorem ir_naf_ok (out : List Int) (s : Bytes) (n w : Int)
+    (hn1 : -9223372036854775808 < n) (hn2 : n + 6 < 9223372036854775808) (r : List Int)
+    (h : Model.Utils.decomposeNAF (some out) (some s) n w = .ok r) :
+    ∀ f, fuelNaf n ≤ f →
+      runV prog G X f f_utils_DecomposeNAF [intsV out, bytesV s, .int n, .int w] = .ret [intsV r] := by
+  obtain ⟨env', hb⟩ := naf_body_ok (P := prog) (G := G) (X := X) fn1_lookup fn2_lookup out s n w hn1 hn2 r h
+  exact runV_of_EvIn fn0_lookup rfl rfl hb
+
+/-- DecomposeNAF: the model panics at run time (an index out of range: `1 ≤ w ≤ 7`) ⇒ the IR run is stuck with
+    every fuel -/
+theorem ir_naf_stuck (out : List Int) (s : Bytes) (n w : Int)
+    (hn1 : -9223372036854775808 < n) (hn2 : n + 6 < 9223372036854775808) (hw : ¬ (w ≤ 0 ∨ w > 7))
+    (h : Model.Utils.decomposeNAF (some out) (some s) n w = .panic) :
+    ∀ f, runV prog G X f f_utils_DecomposeNAF [intsV out, bytesV s, .int n, .int w] = .stuck :=
+  runV_of_Stuck fn0_lookup (naf_body_stuck (P := prog) (G := G) (X := X) fn1_lookup fn2_lookup out s n w hn1 hn2 hw h)
+
+/-- DecomposeNAF: the explicit `panic("nil or invalid parameters")` for `w ≤ 0 ∨ w > 7` (any `n`) -/
+theorem ir_naf_panic (out : List Int) (s : Bytes) (n w : Int) (hw : w ≤ 0 ∨ w > 7) :
+    ∀ f, 3 ≤ f → runV prog G X f f_utils_DecomposeNAF [intsV out, bytesV s, .int n, .int w] = .panic :=
+  runV_of_EvIn fn0_lookup rfl rfl (naf_body_panic (P := prog) (G := G) (X := X) out s n w hw)
+
+theorem model_naf_panic (out : List Int) (s : Bytes) (n w : Int) (hw : w ≤ 0 ∨ w > 7) :
+    Model.Utils.decomposeNAF (some out) (some s) n w = .panic := by
+  rw [naf_unfold, if_pos hw]
+
+/-- run level of the recorded disagreement at `n = math.MinInt64` -/
+theorem ir_naf_minInt64_disagree (out : List Int) (s : Bytes) (w : Nat) (hw1 : 1 ≤ w) (hw7 : w ≤ 7)
+    (hs : s.length < 1152921504606846976) :
+    Model.Utils.decomposeNAF (some out) (some s) (-9223372036854775808) (w : Int) = .ok out ∧
+      ∀ f, runV prog G X f f_utils_DecomposeNAF [intsV out, bytesV s, .int (-9223372036854775808), .int (w : Int)]
+        = .stuck := by
+  obtain ⟨hm, hst⟩ := naf_minInt64_disagree (P := prog) (G := G) (X := X) fn1_lookup out s w hw1 hw7 hs
+  exact ⟨hm, runV_of_Stuck fn0_lookup hst⟩
+
+/-! ### The combined statement -/
+
+def intsOf : List Val → Option (List Int)
+  | [] => some []
+  | .int n :: vs => (intsOf vs).map (n :: ·)
+  | .arr _ :: _ => none
+
+theorem intsOf_map (l : List Int) : intsOf (l.map Val.int) = some l := by
+  induction l with
+  | nil => rfl
+  | cons a l ih => simp [intsOf, ih]
+
+/-- value of a run as an outcome: results `[slice of ints]` ↦ `ok`; a stuck run (index out of range: a Go
+    run-time panic) and an explicit `panic` ↦ `panic` -/
+def outcomeInts : Ctl → Outcome (List Int)
+  | .ret [.arr vs] =>
+    match intsOf vs with
+    | some l => .ok l
+    | none => .panic
+  | _ => .panic
+
+theorem outcomeInts_ret (l : List Int) : outcomeInts (.ret [intsV l]) = .ok l := by
+  simp [outcomeInts, intsV, intsOf_map]
+
+theorem getBit_ne_err (s : Bytes) (idx : Nat) (c : Bool) : Model.Utils.getBit s idx c ≠ .err := by
+  rw [getBit_unfold]
+  simp only [Outcome.idx]
+  cases s[idx / 8]? with
+  | none => simp
+  | some b =>
+    simp only [Outcome.bind_ok]
+    cases c
+    · simp
+    · simp only [Bool.not_true, Bool.false_eq_true, if_false]
+      split <;> simp
+
+theorem getBits_ne_err (s : Bytes) (idx w : Nat) : Model.Utils.getBits s idx w ≠ .err := by
+  rw [getBits_unfold]
+  simp only [Outcome.idx]
+  cases s[idx / 8]? with
+  | none => simp
+  | some b =>
+    simp only [Outcome.bind_ok]
+    split
+    · cases s[idx / 8 - 1]? <;> simp
+    · simp
+
+theorem nafLoop_ne_err (s : Bytes) (n w : Nat) : ∀ (fuel outIdx : Nat) (carry : Bool) (out : List Int),
+    Model.Utils.nafLoop s n w fuel outIdx carry out ≠ .err := by
+  intro fuel
+  induction fuel with
+  | zero => intro outIdx carry out; rw [nafLoop_zero]; simp
+  | succ fuel ih =>
+    intro outIdx carry out
+    rw [nafLoop_succ]
+    split
+    · cases hg : Model.Utils.getBit s (n - outIdx - 1 - 1) carry with
+      | err => exact absurd hg (getBit_ne_err _ _ _)
+      | panic => simp
+      | ok p =>
+        rw [Outcome.bind_ok]
+        split
+        · cases hgb : Model.Utils.getBits s (n - outIdx - 1 - 1) w with
+          | err => exact absurd hgb (getBits_ne_err _ _ _)
+          | panic => simp
+          | ok d0 =>
+            rw [Outcome.bind_ok, Model.Utils.setIdx]
+            split
+            · rw [Outcome.bind_ok]; exact ih _ _ _
+            · simp
+        · exact ih _ _ _
+    · simp
+
+theorem model_naf_ne_err (out : List Int) (s : Bytes) (n w : Int) :
+    Model.Utils.decomposeNAF (some out) (some s) n w ≠ .err := by
+  rw [naf_unfold]
+  split
+  · simp
+  · cases hm : Model.Utils.nafLoop s n.toNat w.toNat n.toNat 0 false out with
+    | err => exact absurd hm (nafLoop_ne_err _ _ _ _ _ _ _)
+    | panic => simp
+    | ok p =>
+      rw [Outcome.bind_ok]
+      split
+      · split
+        · simp
+        · rw [Model.Utils.setIdx]; split <;> simp
+      · simp
+
+/-- the run of the generated IR of DecomposeNAF IS the hand-written model, for all (non-nil) `out`, `s`, every
+    window `w` of a Go `int`, and every bit length `n` with `math.MinInt64 < n ≤ math.MaxInt64 - 6`:
+    * `n = math.MinInt64`: Go and the IR wrap `n-1` to `MaxInt64`, enter the loop and panic at `s[(n-2)>>3]`;
+      the model takes `n.toNat = 0` iterations and returns `out` unchanged;
+    * `n > MaxInt64 - 6`: `outIdx += w; outIdx++` could wrap in Go and the IR, not in the model (only for a
+      byte string of at least 2^60 bytes: otherwise both sides panic in the first round, see
+      `ir_decomposeNAF_eq_model'`). -/
+theorem ir_decomposeNAF_eq_model (out : List Int) (s : Bytes) (n w : Int)
+    (hn1 : -9223372036854775808 < n) (hn2 : n + 6 < 9223372036854775808) (f : Nat) (hf : fuelNaf n ≤ f) :
+    outcomeInts (runV prog G X f f_utils_DecomposeNAF [intsV out, bytesV s, .int n, .int w])
+      = Model.Utils.decomposeNAF (some out) (some s) n w := by
+  by_cases hw : w ≤ 0 ∨ w > 7
+  · rw [ir_naf_panic out s n w hw f (by simp only [fuelNaf] at hf; omega), model_naf_panic out s n w hw]; rfl
+  · cases h : Model.Utils.decomposeNAF (some out) (some s) n w with
+    | ok r => rw [ir_naf_ok out s n w hn1 hn2 r h f hf, outcomeInts_ret]
+    | panic => rw [ir_naf_stuck out s n w hn1 hn2 hw h f]; rfl
+    | err => exact absurd h (model_naf_ne_err out s n w)
+
+/-- the same with the weakest hypothesis on `n`: a Go `int` other than `math.MinInt64`, and, when `n` is within 6 of
+    `math.MaxInt64`, a byte string shorter than 2^60 bytes (always true of a Go slice) -/
+theorem ir_decomposeNAF_eq_model' (out : List Int) (s : Bytes) (n w : Int)
+    (hn1 : -9223372036854775808 < n) (hn2 : n < 9223372036854775808)
+    (hs : n + 6 < 9223372036854775808 ∨ s.length < 1152921504606846976) (f : Nat) (hf : fuelNaf n ≤ f) :
+    outcomeInts (runV prog G X f f_utils_DecomposeNAF [intsV out, bytesV s, .int n, .int w])
+      = Model.Utils.decomposeNAF (some out) (some s) n w := by
+  by_cases hsmall : n + 6 < 9223372036854775808
+  · exact ir_decomposeNAF_eq_model out s n w hn1 hsmall f hf
+  · have hlen : s.length < 1152921504606846976 := by
+      rcases hs with h | h
+      · exact absurd h hsmall
+      · exact h
+    by_cases hw : w ≤ 0 ∨ w > 7
+    · rw [ir_naf_panic out s n w hw f (by simp only [fuelNaf] at hf; omega), model_naf_panic out s n w hw]; rfl
+    · obtain ⟨hmod, hst⟩ := naf_big (P := prog) (G := G) (X := X) fn1_lookup out s n w hn2 (by omega) hlen hw
+      rw [hmod, runV_of_Stuck fn0_lookup hst f]; rfl
+
+end Run
+
+#print axioms ir_getBit_ok
+#print axioms ir_getBit_panic
+#print axioms ir_getBits_ok
+#print axioms ir_getBits_panic
+#print axioms naf_body_ok
+#print axioms naf_body_stuck
+#print axioms naf_body_panic
+#print axioms ir_naf_ok
+#print axioms ir_naf_stuck
+#print axioms ir_naf_panic
+#print axioms ir_decomposeNAF_eq_model
+#print axioms ir_decomposeNAF_eq_model'
+#print axioms ir_naf_minInt64_disagree
 
 end SMGo.Proofs.CTIRRefineNaf
